@@ -758,3 +758,1796 @@ example (c : Cfg) (hc : c.onlyObjectsAndArrays = false) :
   have e2 : stream {} ({} : Gap).strip (stripItems exItems) = [49, 32, 32, 50, 10] := by decide
   simp only [e1, e2, applyOnlyObj_off c hc] at h
   exact ⟨h.1, h.2.1, h.2.2.2.1, h.2.2.2.2.2.2.2.1⟩
+
+/-! ### 3. run level: the default configuration prints the same bytes for a noisy stream and its clean twin -/
+
+/-- a stream as an input source -/
+def streamSource (name : Option Str) (o : JsonOpts) (g0 : Gap) (items : List (JV × Gap)) : Source :=
+  ⟨name, cleanInput (stream o g0 items)⟩
+
+theorem streamSource_reader (name : Option Str) (o : JsonOpts) (g0 : Gap) (items : List (JV × Gap)) :
+    Reader.ofItems (streamSource name o g0 items).items (streamSource name o g0 items).name
+      = Reader.ofBytes (stream o g0 items) name := rfl
+
+theorem streamSource_fuel (name : Option Str) (o : JsonOpts) (g0 : Gap) (items : List (JV × Gap)) :
+    (streamSource name o g0 items).items.length + 2 = (stream o g0 items).length + 2 := by
+  simp [streamSource, cleanInput]
+
+theorem cleanIO_streams (l : List Source) (h : ∀ s ∈ l, ∃ bs, s.items = cleanInput bs) : CleanIO l := by
+  intro s hs
+  obtain ⟨bs, hbs⟩ := h s hs
+  rw [hbs]
+  exact cleanInput_clean bs
+
+theorem flatMap_input {β} (f : JV → List β) (l : List Ctx) :
+    l.flatMap (fun ctx => f ctx.input) = (l.map (·.input)).flatMap f := by
+  induction l with
+  | nil => rfl
+  | cons x l ih => simp [ih]
+
+/-- the rows of a run over one stream -/
+theorem ctxsOfSources_stream (c : Cfg) (name : Option Str) (o : JsonOpts) (g0 : Gap) (items : List (JV × Gap))
+    (k : Nat) :
+    ctxsOfSources c [streamSource name o g0 items] k
+      = ctxsOf c ((stream o g0 items).length + 2) (Reader.ofBytes (stream o g0 items) name) 0 k := by
+  simp only [ctxsOfSources, streamSource_reader, streamSource_fuel, List.append_nil]
+
+/-- **noise_default_same_output.**  Without options, a noisy stream (on stdin or in a named file) and its clean
+twin make `jawk` print exactly the same bytes: one one-line JSON row per value of the stream, in order. -/
+theorem noise_default_same_output (orc : Oracles) (o : JsonOpts) (g0 : Gap) (items : List (JV × Gap))
+    (h0 : g0.OK) (hit : ItemsOK o items) (name : Option Str) (wOut wErr : Writer) (hw : Unbounded wOut) :
+    let noisy := streamSource name o g0 items
+    let clean := streamSource name o g0.strip (stripItems items)
+    (run orc {} [noisy] wOut wErr).result = .ok ()
+    ∧ (run orc {} [clean] wOut wErr).result = .ok ()
+    ∧ (run orc {} [noisy] wOut wErr).stdout
+        = wOut.out ++ ((items.map (·.1)).map norm).flatMap (fun v => utf8 (printJson {} v) ++ [10])
+    ∧ (run orc {} [clean] wOut wErr).stdout = (run orc {} [noisy] wOut wErr).stdout
+    ∧ (run orc {} [noisy] wOut wErr).stderr = wErr.out
+    ∧ (run orc {} [clean] wOut wErr).stderr = wErr.out := by
+  intro noisy clean
+  have hclN : CleanIO [noisy] := cleanIO_streams _ (by
+    intro s hs; simp only [List.mem_singleton] at hs; subst hs; exact ⟨_, rfl⟩)
+  have hclC : CleanIO [clean] := cleanIO_streams _ (by
+    intro s hs; simp only [List.mem_singleton] at hs; subst hs; exact ⟨_, rfl⟩)
+  obtain ⟨n1, n2, n3⟩ := default_rows orc [noisy] wOut wErr hw hclN
+  obtain ⟨c1, c2, c3⟩ := default_rows orc [clean] wOut wErr hw hclC
+  have hN := (noisy_rows {} o g0 items h0 hit name _ (Nat.le_refl _) 0 0).1
+  have hC := (noisy_rows {} o g0.strip (stripItems items) (Gap.strip_OK h0) (stripItems_OK o items hit) name _
+    (Nat.le_refl _) 0 0).1
+  rw [stripItems_values] at hC
+  rw [applyOnlyObj_off _ rfl] at hN hC
+  have eN : (run orc {} [noisy] wOut wErr).stdout
+      = wOut.out ++ ((items.map (·.1)).map norm).flatMap (fun v => utf8 (printJson {} v) ++ [10]) := by
+    rw [n2, ctxsOfSources_stream, flatMap_input (fun v => utf8 (printJson {} v) ++ [10]), hN]
+  have eC : (run orc {} [clean] wOut wErr).stdout
+      = wOut.out ++ ((items.map (·.1)).map norm).flatMap (fun v => utf8 (printJson {} v) ++ [10]) := by
+    rw [c2, ctxsOfSources_stream, flatMap_input (fun v => utf8 (printJson {} v) ++ [10]), hC]
+  exact ⟨n1, c1, eN, by rw [eC, eN], n3, c3⟩
+
+/-- `1 x 2\n` on stdin: the default run prints `1\n2\n` -/
+example (orc : Oracles) :
+    (run orc {} [⟨none, cleanInput [49, 32, 120, 32, 50, 10]⟩] {} {}).stdout = [49, 10, 50, 10] := by
+  have h := (noise_default_same_output orc {} {} exItems emptyGap_ok exItems_ok none {} {} ⟨rfl, rfl⟩).2.2.1
+  have e1 : stream {} {} exItems = [49, 32, 120, 32, 50, 10] := by decide
+  simp only [streamSource, e1] at h
+  rw [h]
+  decide
+
+/-! ### 4. `--on-error=panic` -/
+
+/-- how the run fails on a parser error under `panic`: with that error, or with `io` when the stream itself
+failed -/
+def failOf (e : PErr) : Fail := if e.canRecover then .json e else .io
+
+/-- the rows read before the first error of any kind, and that error, if there is one -/
+def ctxsUntilError (c : Cfg) : Nat → Reader → Nat → Nat → List Ctx × Option PErr
+  | 0, _, _, _ => ([], none)
+  | fuel + 1, r, inFile, idx =>
+    match r.nextJson with
+    | (.ok (some v), r') =>
+      if c.onlyObjectsAndArrays && !v.isObjOrArr then ctxsUntilError c fuel r' inFile idx
+      else
+        ({ input := v, ictx := some { startLoc := r.loc, endLoc := r'.loc, fileIndex := inFile, index := idx } }
+            :: (ctxsUntilError c fuel r' (inFile + 1) (idx + 1)).1,
+          (ctxsUntilError c fuel r' (inFile + 1) (idx + 1)).2)
+    | (.ok none, _) => ([], none)
+    | (.error e, _) => ([], some e)
+
+/-- what the chain does with the rows read before the first error -/
+abbrev panicRes (orc : Oracles) (c : Cfg) (p : Pipeline) (fuel : Nat) (r : Reader) (inFile : Nat)
+    (s : RunState) : Pipe.Step :=
+  feedBrk (processP (evalT orc) p.cfgs) s.sts (ctxsUntilError c fuel r inFile s.index).1
+
+/-- **readLoop_panic.**  Under `--on-error=panic` the read loop feeds the chain the rows that precede the first
+error.  If the chain has not answered `Break` by then, the loop fails with that error, having written exactly
+the rows the chain delivered for that prefix; otherwise (no error, or `Break` first) it ends normally. -/
+theorem readLoop_panic (orc : Oracles) (c : Cfg) (p : Pipeline)
+    (hpol : c.onError = .panic) (hna : NoAbort orc p.cfgs)
+    (fuel : Nat) (r : Reader) (inFile : Nat) (s : RunState)
+    (hw : Unbounded s.out) (hs : Shape p.cfgs s.sts) (hwf : WF r) (hf : μ r + 1 ≤ fuel) :
+    (∀ e, (ctxsUntilError c fuel r inFile s.index).2 = some e →
+        (panicRes orc c p fuel r inFile s).2.2 = .cont →
+      ∃ s', readLoop orc c p fuel r inFile s = .error ⟨.error (failOf e), s'⟩
+        ∧ s'.sts = (panicRes orc c p fuel r inFile s).1
+        ∧ s'.out = wappend s.out ((panicRes orc c p fuel r inFile s).2.1.flatMap (sinkBytes p.sink p.sinkLen))
+        ∧ s'.err = s.err)
+    ∧ (((ctxsUntilError c fuel r inFile s.index).2 = none ∨ (panicRes orc c p fuel r inFile s).2.2 = .brk) →
+      ∃ s' r', readLoop orc c p fuel r inFile s = .ok (s', r', (panicRes orc c p fuel r inFile s).2.2)
+        ∧ s'.sts = (panicRes orc c p fuel r inFile s).1
+        ∧ s'.out = wappend s.out ((panicRes orc c p fuel r inFile s).2.1.flatMap (sinkBytes p.sink p.sinkLen))
+        ∧ s'.err = s.err
+        ∧ ((panicRes orc c p fuel r inFile s).2.2 = .cont →
+            s'.index = s.index + (ctxsUntilError c fuel r inFile s.index).1.length)
+        ∧ Shape p.cfgs s'.sts) := by
+  induction fuel generalizing r inFile s with
+  | zero => omega
+  | succ fuel ih =>
+    have hm := nextJson_mono r
+    rcases hn : r.nextJson with ⟨res, r'⟩
+    rw [hn] at hm
+    cases res with
+    | error e =>
+      simp only [panicRes, readLoop, ctxsUntilError, hn, feedBrk]
+      constructor
+      · intro e' he' _
+        cases he'
+        refine ⟨{ s with pulled := s.pulled ++ [r'.pulled] }, ?_, rfl, by simp [wappend_nil], rfl⟩
+        unfold failOf
+        cases hrec : e.canRecover <;> simp [hpol]
+      · rintro (h | h) <;> cases h
+    | ok o =>
+      cases o with
+      | none =>
+        simp only [panicRes, readLoop, ctxsUntilError, hn, feedBrk]
+        constructor
+        · intro e he; cases he
+        · intro _
+          exact ⟨s, r', rfl, rfl, by simp [wappend_nil], rfl, fun _ => rfl, hs⟩
+      | some v =>
+        have hp := nextJson_progress r hwf hn (by intro h; cases h)
+        simp only [panicRes, readLoop, ctxsUntilError, hn]
+        split
+        · exact ih r' inFile s hw hs (hm.wf hwf) (by omega)
+        · obtain ⟨p1, p2⟩ := process_pure orc p.sink p.sinkLen p.cfgs s.sts s.out
+            { input := v, ictx := some { startLoc := r.loc, endLoc := r'.loc, fileIndex := inFile, index := s.index } }
+            hna hw hs
+          rcases hP : processP (evalT orc) p.cfgs s.sts
+            { input := v, ictx := some { startLoc := r.loc, endLoc := r'.loc, fileIndex := inFile, index := s.index } }
+            with ⟨s1, o1, d⟩
+          rw [hP] at p1 p2
+          cases d with
+          | brk =>
+            rw [feedBrk_cons_brk hP]
+            simp only [p1]
+            constructor
+            · intro e _ h; cases h
+            · intro _
+              exact ⟨_, r', rfl, rfl, rfl, rfl, (fun h => by cases h), p2⟩
+          | cont =>
+            rw [feedBrk_cons_cont hP]
+            simp only [p1]
+            obtain ⟨ihE, ihO⟩ :=
+              ih r' (inFile + 1) { s with sts := s1, out := wappend s.out (o1.flatMap (sinkBytes p.sink p.sinkLen)),
+                                          index := s.index + 1 }
+                (hw.wappend _) p2 (hm.wf hwf) (by omega)
+            constructor
+            · intro e he hc
+              obtain ⟨s', h1, h2, h3, h4⟩ := ihE e he hc
+              refine ⟨s', h1, h2, ?_, h4⟩
+              rw [h3, wappend_wappend, List.flatMap_append]
+            · intro hc
+              obtain ⟨s', r'', h1, h2, h3, h4, h5, h6⟩ := ihO hc
+              refine ⟨s', r'', h1, h2, ?_, h4, ?_, h6⟩
+              · rw [h3, wappend_wappend, List.flatMap_append]
+              · intro hd
+                rw [h5 hd]
+                simp only [List.length_cons]
+                omega
+
+/-- the rows of a list of sources before the first error, and that error -/
+def ctxsUntilErrorSources (c : Cfg) : List Source → Nat → List Ctx × Option PErr
+  | [], _ => ([], none)
+  | src :: rest, idx =>
+    match (ctxsUntilError c (src.items.length + 2) (Reader.ofItems src.items src.name) 0 idx).2 with
+    | some e => ((ctxsUntilError c (src.items.length + 2) (Reader.ofItems src.items src.name) 0 idx).1, some e)
+    | none =>
+      ((ctxsUntilError c (src.items.length + 2) (Reader.ofItems src.items src.name) 0 idx).1 ++
+        (ctxsUntilErrorSources c rest
+          (idx + (ctxsUntilError c (src.items.length + 2) (Reader.ofItems src.items src.name) 0 idx).1.length)).1,
+       (ctxsUntilErrorSources c rest
+          (idx + (ctxsUntilError c (src.items.length + 2) (Reader.ofItems src.items src.name) 0 idx).1.length)).2)
+
+abbrev panicSrcRes (orc : Oracles) (c : Cfg) (p : Pipeline) (sources : List Source) (s : RunState) : Pipe.Step :=
+  feedBrk (processP (evalT orc) p.cfgs) s.sts (ctxsUntilErrorSources c sources s.index).1
+
+/-- the file loop under `panic` -/
+theorem readSources_panic (orc : Oracles) (c : Cfg) (p : Pipeline)
+    (hpol : c.onError = .panic) (hna : NoAbort orc p.cfgs)
+    (sources : List Source) (s : RunState) (hw : Unbounded s.out) (hs : Shape p.cfgs s.sts) :
+    (∀ e, (ctxsUntilErrorSources c sources s.index).2 = some e →
+        (panicSrcRes orc c p sources s).2.2 = .cont →
+      ∃ s', readSources orc c p sources s = .error ⟨.error (failOf e), s'⟩
+        ∧ s'.sts = (panicSrcRes orc c p sources s).1
+        ∧ s'.out = wappend s.out ((panicSrcRes orc c p sources s).2.1.flatMap (sinkBytes p.sink p.sinkLen))
+        ∧ s'.err = s.err)
+    ∧ (((ctxsUntilErrorSources c sources s.index).2 = none ∨ (panicSrcRes orc c p sources s).2.2 = .brk) →
+      ∃ s', readSources orc c p sources s = .ok s'
+        ∧ s'.sts = (panicSrcRes orc c p sources s).1
+        ∧ s'.out = wappend s.out ((panicSrcRes orc c p sources s).2.1.flatMap (sinkBytes p.sink p.sinkLen))
+        ∧ s'.err = s.err
+        ∧ Shape p.cfgs s'.sts) := by
+  induction sources generalizing s with
+  | nil =>
+    simp only [panicSrcRes, ctxsUntilErrorSources, readSources, feedBrk]
+    constructor
+    · intro e he; cases he
+    · intro _
+      exact ⟨s, rfl, rfl, by simp [wappend_nil], rfl, hs⟩
+  | cons src rest ih =>
+    obtain ⟨hE, hO⟩ := readLoop_panic orc c p hpol hna (src.items.length + 2)
+      (Reader.ofItems src.items src.name) 0 s hw hs (wf_ofItems _ _) (by rw [μ_ofItems]; omega)
+    simp only [panicRes] at hE hO
+    simp only [panicSrcRes, readSources, ctxsUntilErrorSources]
+    rcases ht : (ctxsUntilError c (src.items.length + 2) (Reader.ofItems src.items src.name) 0 s.index).2
+      with _ | e
+    · -- no error in this source
+      simp only []
+      obtain ⟨s1, r1, h1, h2, h3, h4, h5, h6⟩ := hO (.inl ht)
+      rw [h1]
+      rcases hd : (feedBrk (processP (evalT orc) p.cfgs) s.sts
+          (ctxsUntilError c (src.items.length + 2) (Reader.ofItems src.items src.name) 0 s.index).1).2.2
+        with _ | _
+      · -- `.cont`: next source
+        have hw1 : Unbounded s1.out := by rw [h3]; exact hw.wappend _
+        obtain ⟨gE, gO⟩ := ih { s1 with pulled := s1.pulled ++ [r1.pulled] } hw1 h6
+        simp only [panicSrcRes] at gE gO
+        have hidx := h5 hd
+        rw [feedBrk_append_cont _ _ _ _ hd]
+        simp only [show (Decision.cont = Decision.brk) = False from by simp, if_false]
+        rw [← h2, ← hidx]
+        constructor
+        · intro e he hc
+          obtain ⟨s', g1, g2, g3, g4⟩ := gE e he hc
+          refine ⟨s', g1, g2, ?_, by rw [g4, h4]⟩
+          rw [g3, h3, wappend_wappend, List.flatMap_append]
+        · intro hc
+          obtain ⟨s', g1, g2, g3, g4, g5⟩ := gO hc
+          refine ⟨s', g1, g2, ?_, by rw [g4, h4], g5⟩
+          rw [g3, h3, wappend_wappend, List.flatMap_append]
+      · -- `.brk`: the remaining sources are not opened
+        rw [feedBrk_append_brk _ _ _ _ hd]
+        simp only [if_true]
+        constructor
+        · intro e _ hc; rw [hd] at hc; cases hc
+        · intro _
+          exact ⟨_, rfl, h2, h3, h4, h6⟩
+    · -- this source holds the first error
+      simp only []
+      constructor
+      · intro e' he' hc
+        cases he'
+        obtain ⟨s', h1, h2, h3, h4⟩ := hE e ht hc
+        rw [h1]
+        exact ⟨s', rfl, h2, h3, h4⟩
+      · rintro (h | h)
+        · cases h
+        · obtain ⟨s1, r1, h1, h2, h3, h4, h5, h6⟩ := hO (.inr h)
+          rw [h1, h]
+          simp only [if_true]
+          exact ⟨_, rfl, h2, h3, h4, h6⟩
+
+/-- a chain without whole-input stage: no sorter, grouper or merger -/
+def Streaming : List StageCfg → Prop
+  | [] => True
+  | .sort _ _ :: _ => False
+  | .group _ :: _ => False
+  | .merge :: _ => False
+  | _ :: cs => Streaming cs
+
+/-- a streaming chain holds nothing back: `complete` delivers no row -/
+theorem completeP_streaming (ev : Expr → Ctx → Option JV) (cfgs : List StageCfg) (sts : List StageSt)
+    (h : Streaming cfgs) : completeP ev cfgs sts = [] := by
+  induction cfgs generalizing sts with
+  | nil => simp [completeP]
+  | cons c cs ih =>
+    cases sts with
+    | nil => simp [completeP]
+    | cons st sts =>
+      cases c <;> first
+        | exact h.elim
+        | (cases st <;> simp only [completeP] <;> exact ih sts h)
+
+/-- for a streaming chain what has been delivered when the feeding stops is the documented composition
+applied to the rows fed -/
+theorem feedBrk_streaming_spec (ev : Expr → Ctx → Option JV) {cfgs : List StageCfg} {sts : List StageSt}
+    (hi : Initial cfgs sts) (hg : GroupLast cfgs) (hst : Streaming cfgs) (rows : List Ctx) :
+    (feedBrk (processP ev cfgs) sts rows).2.1 = specRows ev cfgs sts rows := by
+  rw [← runP_eq_spec ev hi hg rows, runP, completeP_streaming ev cfgs _ hst, List.append_nil]
+
+/-- **run_panic_spec.**  Under `--on-error=panic`, with a configuration that builds, expressions that never
+abort and a standard output that never fails: let `pre` be the rows read before the first error.
+* If there is such an error and the chain has not answered `Break` on `pre`, the run fails with that error;
+  standard output holds the header and the rows the chain delivered while being fed `pre` — `complete` is not
+  run — and for a streaming chain these are exactly `specRows pre`.  Nothing is written to standard error
+  by the run itself.
+* Otherwise the run succeeds and writes exactly what it writes under `ignore`: `specRows pre`. -/
+theorem run_panic_spec (orc : Oracles) (c : Cfg) (sources : List Source) (wOut wErr : Writer) (p : Pipeline)
+    (hpol : c.onError = .panic) (hb : build orc c = .ok p)
+    (hna : NoAbort orc p.cfgs) (hw : Unbounded wOut) (hh : ¬ HeaderMissing p) :
+    (∀ e, (ctxsUntilErrorSources c sources 0).2 = some e →
+        (feedBrk (processP (evalT orc) p.cfgs) p.sts (ctxsUntilErrorSources c sources 0).1).2.2 = .cont →
+      (run orc c sources wOut wErr).result = .error (failOf e)
+      ∧ (run orc c sources wOut wErr).stdout
+          = wOut.out ++ headerBytes p ++
+            (feedBrk (processP (evalT orc) p.cfgs) p.sts (ctxsUntilErrorSources c sources 0).1).2.1.flatMap
+              (sinkBytes p.sink p.sinkLen)
+      ∧ (Streaming p.cfgs →
+          (run orc c sources wOut wErr).stdout
+            = wOut.out ++ headerBytes p ++
+              (specRows (evalT orc) p.cfgs p.sts (ctxsUntilErrorSources c sources 0).1).flatMap
+                (sinkBytes p.sink p.sinkLen))
+      ∧ (run orc c sources wOut wErr).stderr = wErr.out)
+    ∧ (((ctxsUntilErrorSources c sources 0).2 = none ∨
+        (feedBrk (processP (evalT orc) p.cfgs) p.sts (ctxsUntilErrorSources c sources 0).1).2.2 = .brk) →
+      (run orc c sources wOut wErr).result = .ok ()
+      ∧ (run orc c sources wOut wErr).stdout
+          = wOut.out ++ headerBytes p ++
+            (specRows (evalT orc) p.cfgs p.sts (ctxsUntilErrorSources c sources 0).1).flatMap
+              (sinkBytes p.sink p.sinkLen)
+      ∧ (run orc c sources wOut wErr).stderr = wErr.out) := by
+  obtain ⟨hi, hg, -, -⟩ := build_initial orc c p hb
+  obtain ⟨hE, hO⟩ := readSources_panic orc c p hpol hna sources
+    { sts := p.sts, out := wappend wOut (headerBytes p), err := wErr } (hw.wappend _) hi.shape
+  simp only [panicSrcRes] at hE hO
+  constructor
+  · intro e he hc
+    obtain ⟨s', g1, g2, g3, g4⟩ := hE e he hc
+    have hout : (run orc c sources wOut wErr).stdout
+          = wOut.out ++ headerBytes p ++
+            (feedBrk (processP (evalT orc) p.cfgs) p.sts (ctxsUntilErrorSources c sources 0).1).2.1.flatMap
+              (sinkBytes p.sink p.sinkLen) := by
+      simp only [run, hb, sinkStart_unbounded p hw hh, g1, RunEnd.toResult, g3, wappend_out]
+    refine ⟨?_, hout, ?_, ?_⟩
+    · simp only [run, hb, sinkStart_unbounded p hw hh, g1, RunEnd.toResult]
+    · intro hst
+      rw [hout, feedBrk_streaming_spec (evalT orc) hi hg hst]
+    · simp only [run, hb, sinkStart_unbounded p hw hh, g1, RunEnd.toResult, g4]
+  · intro hc
+    obtain ⟨s', g1, g2, g3, g4, g5⟩ := hO hc
+    have hw' : Unbounded s'.out := by rw [g3]; exact (hw.wappend _).wappend _
+    have hcp := complete_pure orc p.sink p.sinkLen p.cfgs s'.sts s'.out hna hw' g5
+    have hspec := runP_eq_spec (evalT orc) hi hg (ctxsUntilErrorSources c sources 0).1
+    simp only [run, hb, sinkStart_unbounded p hw hh, g1, hcp]
+    refine ⟨trivial, ?_, by rw [g4]⟩
+    simp only [wappend_out, g3, g2]
+    rw [← hspec, runP, List.flatMap_append]
+    simp [List.append_assoc]
+
+/-! ### `panic` on a noisy stream: the run stops at the first garbage byte -/
+
+theorem ctxsUntilError_fuel (c : Cfg) (f₁ f₂ : Nat) (r : Reader) (i k : Nat) (hw : WF r)
+    (h1 : μ r + 1 ≤ f₁) (h2 : μ r + 1 ≤ f₂) : ctxsUntilError c f₁ r i k = ctxsUntilError c f₂ r i k := by
+  induction f₁ generalizing f₂ r i k with
+  | zero => omega
+  | succ f₁ ih =>
+    obtain ⟨f₂, rfl⟩ : ∃ m, f₂ = m + 1 := ⟨f₂ - 1, by omega⟩
+    rcases hn : r.nextJson with ⟨res, r'⟩
+    cases res with
+    | error e => simp only [ctxsUntilError, hn]
+    | ok o =>
+      cases o with
+      | none => simp only [ctxsUntilError, hn]
+      | some v =>
+        obtain ⟨hw', hμ⟩ := step_facts hw hn (by intro h; cases h)
+        simp only [ctxsUntilError, hn]
+        split
+        · exact ih f₂ r' i k hw' (by omega) (by omega)
+        · rw [ih f₂ r' (i + 1) (k + 1) hw' (by omega) (by omega)]
+
+/-- the rows before the first error behind reader `r`, and that error -/
+def untilAt (c : Cfg) (r : Reader) (i k : Nat) : List Ctx × Option PErr := ctxsUntilError c (μ r + 1) r i k
+
+theorem ctxsUntilError_eq_untilAt (c : Cfg) (f : Nat) (r : Reader) (i k : Nat) (hw : WF r) (hf : μ r + 1 ≤ f) :
+    ctxsUntilError c f r i k = untilAt c r i k := ctxsUntilError_fuel c f _ r i k hw hf (Nat.le_refl _)
+
+theorem untilAt_error (c : Cfg) {r r' : Reader} {e : PErr} (i k : Nat)
+    (hn : r.nextJson = (.error e, r')) : untilAt c r i k = ([], some e) := by
+  rw [untilAt, ctxsUntilError]
+  simp only [hn]
+
+theorem untilAt_end (c : Cfg) {r r' : Reader} (i k : Nat)
+    (hn : r.nextJson = (.ok none, r')) : untilAt c r i k = ([], none) := by
+  rw [untilAt, ctxsUntilError]
+  simp only [hn]
+
+theorem untilAt_value (c : Cfg) {r r' : Reader} {v : JV} (i k : Nat) (hw : WF r)
+    (hn : r.nextJson = (.ok (some v), r')) :
+    untilAt c r i k =
+      if c.onlyObjectsAndArrays && !v.isObjOrArr then untilAt c r' i k
+      else ({ input := v, ictx := some { startLoc := r.loc, endLoc := r'.loc, fileIndex := i, index := k } }
+              :: (untilAt c r' (i + 1) (k + 1)).1, (untilAt c r' (i + 1) (k + 1)).2) := by
+  obtain ⟨hw', hμ⟩ := step_facts hw hn (by intro h; cases h)
+  rw [untilAt, ctxsUntilError]
+  simp only [hn]
+  rw [ctxsUntilError_eq_untilAt c _ r' i k hw' hμ, ctxsUntilError_eq_untilAt c _ r' (i + 1) (k + 1) hw' hμ]
+
+/-- the values that precede the first gap containing garbage -/
+def cleanPrefix (g0 : Gap) : List (JV × Gap) → List JV
+  | [] => []
+  | (v, g) :: rest => if g0.toks.isEmpty then v :: cleanPrefix g rest else []
+
+/-- the first garbage byte of the stream -/
+def firstGarbage (g0 : Gap) : List (JV × Gap) → Option Byte
+  | [] => g0.toks.head?.bind (·.1.head?)
+  | (_, g) :: rest =>
+    match g0.toks with
+    | t :: _ => t.1.head?
+    | [] => firstGarbage g rest
+
+/-- reading a noisy stream up to its first error: the values before the first gap that holds garbage, then
+the `unexpectedChar` error for the first garbage byte (none for a clean stream) -/
+theorem stream_until (c : Cfg) (o : JsonOpts) (items : List (JV × Gap)) (hit : ItemsOK o items)
+    (g0 : Gap) (h0 : g0.OK) (w : List Byte) (hw : ∀ b ∈ w, isWs b = true) (r : Reader)
+    (hr : Ready r (w ++ stream o g0 items)) (i k : Nat) :
+    (untilAt c r i k).1.map (·.input) = applyOnlyObj c ((cleanPrefix g0 items).map norm) ∧
+    (match firstGarbage g0 items with
+      | none => (untilAt c r i k).2 = none
+      | some b => ∃ loc, (untilAt c r i k).2 = some (.unexpectedChar loc b valueExpected)) := by
+  induction items generalizing g0 w r i k with
+  | nil =>
+    obtain ⟨ws0, toks0⟩ := g0
+    cases toks0 with
+    | nil =>
+      obtain ⟨r2, hend, _⟩ := nextJson_end (w ++ ws0) (ws_append hw h0.1) r
+        (by simpa [stream, Gap.bytes, toksBytes] using hr)
+      rw [untilAt_end c i k hend]
+      exact ⟨rfl, rfl⟩
+    | cons t toks =>
+      obtain ⟨hne, hg, _⟩ := h0.2 t (by simp)
+      obtain ⟨t1, t2⟩ := t
+      cases t1 with
+      | nil => exact absurd rfl hne
+      | cons b bs =>
+        obtain ⟨r1, h1, _⟩ := garbage_one (w ++ ws0) (ws_append hw h0.1) b (hg b (by simp))
+          (bs ++ (t2 ++ (toksBytes toks ++ []))) r
+          (by simpa [stream, Gap.bytes, toksBytes, List.append_assoc] using hr)
+        rw [untilAt_error c i k h1]
+        exact ⟨rfl, _, rfl⟩
+  | cons x rest ih =>
+    obtain ⟨v, g⟩ := x
+    obtain ⟨hv, hg, hsep, hrest⟩ := hit
+    rw [stream_cons] at hr
+    obtain ⟨ws0, toks0⟩ := g0
+    cases toks0 with
+    | nil =>
+      have hr1 : Ready r ((w ++ ws0) ++ (utf8 (printJson o v) ++ stream o g rest)) := by
+        simpa [Gap.bytes, toksBytes, List.append_assoc] using hr
+      obtain ⟨r2, hval, hr2⟩ := nextJson_print o v hv (w ++ ws0) (ws_append hw h0.1) _
+        (delim_stream o v g rest hg hsep) r hr1
+      have hr2' : Ready r2 ([] ++ stream o g rest) := by simpa using hr2
+      rw [untilAt_value c i k (ready_wf hr) hval]
+      simp only [cleanPrefix, firstGarbage, List.isEmpty_nil, if_true, List.map_cons, applyOnlyObj,
+        List.filter_cons]
+      cases hb : (c.onlyObjectsAndArrays && !(norm v).isObjOrArr) with
+      | true =>
+        simp only [if_true, Bool.not_true, Bool.false_eq_true, if_false]
+        exact ih hrest g hg [] (by simp) r2 hr2' i k
+      | false =>
+        simp only [Bool.false_eq_true, if_false, Bool.not_false, if_true, List.map_cons]
+        obtain ⟨ih1, ih2⟩ := ih hrest g hg [] (by simp) r2 hr2' (i + 1) (k + 1)
+        refine ⟨?_, ih2⟩
+        rw [ih1]
+        rfl
+    | cons t toks =>
+      obtain ⟨hne, hgb, _⟩ := h0.2 t (by simp)
+      obtain ⟨t1, t2⟩ := t
+      cases t1 with
+      | nil => exact absurd rfl hne
+      | cons b bs =>
+        obtain ⟨r1, h1, _⟩ := garbage_one (w ++ ws0) (ws_append hw h0.1) b (hgb b (by simp))
+          (bs ++ (t2 ++ (toksBytes toks ++ (utf8 (printJson o v) ++ stream o g rest)))) r
+          (by simpa [Gap.bytes, toksBytes, List.append_assoc] using hr)
+        rw [untilAt_error c i k h1]
+        exact ⟨rfl, _, rfl⟩
+
+theorem ctxsUntilErrorSources_single (c : Cfg) (src : Source) (k : Nat) :
+    (ctxsUntilErrorSources c [src] k).1
+        = (ctxsUntilError c (src.items.length + 2) (Reader.ofItems src.items src.name) 0 k).1 ∧
+    (ctxsUntilErrorSources c [src] k).2
+        = (ctxsUntilError c (src.items.length + 2) (Reader.ofItems src.items src.name) 0 k).2 := by
+  simp only [ctxsUntilErrorSources]
+  split
+  · rename_i e he
+    exact ⟨rfl, he.symm⟩
+  · rename_i he
+    exact ⟨by simp, he.symm⟩
+
+/-- **`panic` on a noisy stream.**  The rows `pre` fed to the chain are those of the values that precede the
+first gap holding garbage.  If the stream holds garbage (first garbage byte `b`) and the chain has not answered
+`Break` on `pre`, the run fails with `unexpectedChar … b`; a streaming chain has by then written exactly the
+header and `specRows pre`.  If the stream is clean (or the chain answered `Break` first) the run succeeds and
+writes the header and `specRows pre`. -/
+theorem run_panic_noisy (orc : Oracles) (c : Cfg) (name : Option Str) (o : JsonOpts) (g0 : Gap)
+    (items : List (JV × Gap)) (h0 : g0.OK) (hit : ItemsOK o items) (wOut wErr : Writer) (p : Pipeline)
+    (hpol : c.onError = .panic) (hb : build orc c = .ok p)
+    (hna : NoAbort orc p.cfgs) (hw : Unbounded wOut) (hh : ¬ HeaderMissing p) :
+    ∃ pre : List Ctx,
+      pre.map (·.input) = applyOnlyObj c ((cleanPrefix g0 items).map norm) ∧
+      (∀ b, firstGarbage g0 items = some b →
+          (feedBrk (processP (evalT orc) p.cfgs) p.sts pre).2.2 = .cont →
+        ∃ loc,
+          (run orc c [streamSource name o g0 items] wOut wErr).result
+            = .error (.json (.unexpectedChar loc b valueExpected))
+          ∧ (run orc c [streamSource name o g0 items] wOut wErr).stdout
+              = wOut.out ++ headerBytes p ++
+                (feedBrk (processP (evalT orc) p.cfgs) p.sts pre).2.1.flatMap (sinkBytes p.sink p.sinkLen)
+          ∧ (Streaming p.cfgs →
+              (run orc c [streamSource name o g0 items] wOut wErr).stdout
+                = wOut.out ++ headerBytes p ++
+                  (specRows (evalT orc) p.cfgs p.sts pre).flatMap (sinkBytes p.sink p.sinkLen))
+          ∧ (run orc c [streamSource name o g0 items] wOut wErr).stderr = wErr.out) ∧
+      ((firstGarbage g0 items = none ∨ (feedBrk (processP (evalT orc) p.cfgs) p.sts pre).2.2 = .brk) →
+        (run orc c [streamSource name o g0 items] wOut wErr).result = .ok ()
+        ∧ (run orc c [streamSource name o g0 items] wOut wErr).stdout
+            = wOut.out ++ headerBytes p ++
+              (specRows (evalT orc) p.cfgs p.sts pre).flatMap (sinkBytes p.sink p.sinkLen)
+        ∧ (run orc c [streamSource name o g0 items] wOut wErr).stderr = wErr.out) := by
+  obtain ⟨hE, hO⟩ := run_panic_spec orc c [streamSource name o g0 items] wOut wErr p hpol hb hna hw hh
+  obtain ⟨e1, e2⟩ := ctxsUntilErrorSources_single c (streamSource name o g0 items) 0
+  rw [streamSource_reader, streamSource_fuel,
+    ctxsUntilError_eq_untilAt c _ _ 0 0 (wf_ofBytes _ _) (by rw [μ_ofBytes]; omega)] at e1 e2
+  have hr : Ready (Reader.ofBytes (stream o g0 items) name) ([] ++ stream o g0 items) := by
+    simpa using ready_ofBytes _ name
+  obtain ⟨u1, u2⟩ := stream_until c o items hit g0 h0 [] (by simp) _ hr 0 0
+  rw [e1] at hE hO
+  rw [e2] at hE hO
+  refine ⟨_, u1, ?_, ?_⟩
+  · intro b hb' hc
+    rw [hb'] at u2
+    obtain ⟨loc, hloc⟩ := u2
+    exact ⟨loc, hE _ hloc hc⟩
+  · rintro (hnone | hbrk)
+    · rw [hnone] at u2
+      exact hO (.inl u2)
+    · exact hO (.inr hbrk)
+
+/-- the clean twin holds no garbage: all its values precede "the first garbage byte" -/
+theorem strip_clean (g0 : Gap) (items : List (JV × Gap)) :
+    firstGarbage g0.strip (stripItems items) = none ∧
+    cleanPrefix g0.strip (stripItems items) = items.map (·.1) := by
+  induction items generalizing g0 with
+  | nil => exact ⟨rfl, rfl⟩
+  | cons x rest ih =>
+    obtain ⟨v, g⟩ := x
+    obtain ⟨i1, i2⟩ := ih g
+    constructor
+    · simp only [stripItems, List.map_cons, firstGarbage, Gap.strip] at i1 ⊢
+      exact i1
+    · simp only [stripItems, List.map_cons, cleanPrefix, Gap.strip, List.isEmpty_nil, if_true] at i2 ⊢
+      rw [i2]
+
+/-- `1 x 2\n` under `panic`: the first garbage byte is `x`, the value `1` precedes it -/
+example : firstGarbage {} exItems = some 120 ∧ cleanPrefix {} exItems = [.num (.pos 1)] := ⟨rfl, rfl⟩
+
+def panicCfg : Cfg := { onError := .panic }
+
+theorem build_panicCfg (orc : Oracles) : build orc panicCfg = .ok defaultPipeline := rfl
+
+/-- non-vacuity of `run_panic_noisy`: the default chain under `panic` on `1 x 2\n` -/
+example (orc : Oracles) : ∃ loc,
+    (run orc panicCfg [streamSource none {} {} exItems] {} {}).result
+      = .error (.json (.unexpectedChar loc 120 valueExpected)) := by
+  obtain ⟨pre, _, h2, _⟩ := run_panic_noisy orc panicCfg none {} {} exItems emptyGap_ok exItems_ok {} {}
+    defaultPipeline rfl (build_panicCfg orc) (fun c hc => by cases hc) ⟨rfl, rfl⟩ (fun h => h)
+  obtain ⟨loc, hl, _⟩ := h2 120 rfl (feedBrk_nil_chain _ _)
+  exact ⟨loc, hl⟩
+
+/-- the same run, computed: it fails at `x` (the reader has pulled the byte after it: column 5), having
+printed the row of the value `1` -/
+example (orc : Oracles) :
+    (run orc panicCfg [⟨none, cleanInput [49, 32, 120, 32, 50, 10]⟩] {} {}).result
+        = .error (.json (.unexpectedChar { name := none, line := 1, col := 5 } 120 valueExpected)) ∧
+    (run orc panicCfg [⟨none, cleanInput [49, 32, 120, 32, 50, 10]⟩] {} {}).stdout = [49, 10] :=
+  ⟨rfl, rfl⟩
+
+/-! ### 5. clean streams produce no report, under any policy -/
+
+/-- no source holds a recoverable error -/
+def NoErrors (sources : List Source) : Prop :=
+  ∀ src ∈ sources, perrsOf (src.items.length + 2) (Reader.ofItems src.items src.name) = []
+
+theorem errsOfSources_nil (ev : Expr → Ctx → Option JV) (c : Cfg) (cfgs : List StageCfg)
+    (sources : List Source) (h : NoErrors sources) (k : Nat) (sts : List StageSt) :
+    errsOfSources ev c cfgs sources k sts = [] := by
+  induction sources generalizing k sts with
+  | nil => rfl
+  | cons src rest ih =>
+    have h1 : errsOf ev c cfgs (src.items.length + 2) (Reader.ofItems src.items src.name) 0 k sts = [] := by
+      have := errsOf_prefix ev c cfgs (src.items.length + 2) (Reader.ofItems src.items src.name) 0 k sts
+      rw [h src (by simp)] at this
+      exact List.prefix_nil.mp this
+    simp only [errsOfSources, h1, List.nil_append]
+    split
+    · rfl
+    · exact ih (fun s hs => h s (by simp [hs])) _ _
+
+/-- without errors, the rows before the first error are all the rows -/
+theorem ctxsUntilError_of_noErrors (c : Cfg) (fuel : Nat) (r : Reader) (i k : Nat) (hcl : Clean r)
+    (h : perrsOf fuel r = []) : ctxsUntilError c fuel r i k = (ctxsOf c fuel r i k, none) := by
+  induction fuel generalizing r i k with
+  | zero => rfl
+  | succ fuel ih =>
+    have hc2 := (nextJson_clean r hcl).2
+    rcases hn : r.nextJson with ⟨res, r'⟩
+    rw [hn] at hc2
+    cases res with
+    | error e =>
+      have hrec := nextJson_canRecover hcl hn
+      simp [perrsOf, hn, hrec] at h
+    | ok o =>
+      cases o with
+      | none => simp only [ctxsUntilError, ctxsOf, hn]
+      | some v =>
+        simp only [perrsOf, hn] at h
+        simp only [ctxsUntilError, ctxsOf, hn]
+        split
+        · exact ih r' i k hc2 h
+        · rw [ih r' (i + 1) (k + 1) hc2 h]
+
+theorem ctxsUntilErrorSources_of_noErrors (c : Cfg) (sources : List Source) (hcl : CleanIO sources)
+    (h : NoErrors sources) (k : Nat) :
+    ctxsUntilErrorSources c sources k = (ctxsOfSources c sources k, none) := by
+  induction sources generalizing k with
+  | nil => rfl
+  | cons src rest ih =>
+    have h1 := ctxsUntilError_of_noErrors c (src.items.length + 2) (Reader.ofItems src.items src.name) 0 k
+      hcl.head (h src (by simp))
+    simp only [ctxsUntilErrorSources, ctxsOfSources, h1, ih hcl.tail (fun s hs => h s (by simp [hs]))]
+
+theorem Chunks.bytes_of_no_reports (ch : Chunks) (h : ch.reports = []) : ch.bytes = ch.rowPart := by
+  induction ch with
+  | nil => rfl
+  | cons x ch ih =>
+    obtain ⟨b, bs⟩ := x
+    cases b with
+    | true => simp [Chunks.reports] at h
+    | false =>
+      have h' : Chunks.reports ch = [] := by simpa [Chunks.reports] using h
+      have := ih h'
+      simp only [Chunks.bytes, Chunks.rowPart] at this ⊢
+      simp [this]
+
+/-- **clean_no_reports (general form).**  Sources that hold no recoverable error and no I/O error: under every
+`--on-error` policy the run succeeds, standard output is the header and the rows of the documented composition
+— no report line —, standard error is untouched. -/
+theorem no_errors_no_reports (orc : Oracles) (c : Cfg) (sources : List Source) (wOut wErr : Writer) (p : Pipeline)
+    (hb : build orc c = .ok p) (hna : NoAbort orc p.cfgs) (hw : Unbounded wOut)
+    (he : c.onError = .stderr → Unbounded wErr)
+    (hcl : CleanIO sources) (hne : NoErrors sources) (hh : ¬ HeaderMissing p) :
+    errsOfSources (evalT orc) c p.cfgs sources 0 p.sts = []
+    ∧ (run orc c sources wOut wErr).result = .ok ()
+    ∧ (run orc c sources wOut wErr).stdout
+        = wOut.out ++ headerBytes p ++
+          (specRows (evalT orc) p.cfgs p.sts (ctxsOfSources c sources 0)).flatMap (sinkBytes p.sink p.sinkLen)
+    ∧ (run orc c sources wOut wErr).stderr = wErr.out := by
+  have hnil := errsOfSources_nil (evalT orc) c p.cfgs sources hne 0 p.sts
+  refine ⟨hnil, ?_⟩
+  cases hpol : c.onError with
+  | ignore => exact run_ignore_spec orc c sources wOut wErr p hpol hb hna hw hcl hh
+  | stderr =>
+    obtain ⟨h1, h2, h3⟩ := policy_stderr_same_rows orc c sources wOut wErr p hpol hb hna hw (he hpol) hcl hh
+    exact ⟨h1, h2, by rw [h3, hnil]; simp⟩
+  | stdout =>
+    obtain ⟨ch, h1, h2, h3, h4, h5⟩ := RunSpec.policy_stdout orc c sources wOut wErr p hpol hb hna hw hcl hh
+    rw [hnil] at h4
+    exact ⟨h1, by rw [h2, Chunks.bytes_of_no_reports ch h4, h3], h5⟩
+  | panic =>
+    obtain ⟨_, hO⟩ := run_panic_spec orc c sources wOut wErr p hpol hb hna hw hh
+    rw [ctxsUntilErrorSources_of_noErrors c sources hcl hne 0] at hO
+    exact hO (.inl rfl)
+
+/-- a list of streams, each with its name and print options -/
+structure StreamSpec where
+  name : Option Str := none
+  o : JsonOpts := {}
+  g0 : Gap := {}
+  items : List (JV × Gap) := []
+
+def StreamSpec.OK (s : StreamSpec) : Prop := s.g0.OK ∧ ItemsOK s.o s.items
+/-- no garbage in any gap -/
+def StreamSpec.Clean (s : StreamSpec) : Prop := garbageCount s.g0 s.items = 0
+def StreamSpec.source (s : StreamSpec) : Source := streamSource s.name s.o s.g0 s.items
+
+theorem cleanIO_specs (specs : List StreamSpec) : CleanIO (specs.map StreamSpec.source) :=
+  cleanIO_streams _ (by
+    intro s hs
+    obtain ⟨x, _, rfl⟩ := List.mem_map.mp hs
+    exact ⟨_, rfl⟩)
+
+theorem noErrors_specs (specs : List StreamSpec) (hok : ∀ s ∈ specs, s.OK) (hclean : ∀ s ∈ specs, s.Clean) :
+    NoErrors (specs.map StreamSpec.source) := by
+  intro src hsrc
+  obtain ⟨x, hx, rfl⟩ := List.mem_map.mp hsrc
+  have := (clean_errors (fun _ _ => none) {} [] [] x.o x.g0 x.items (hok x hx).1 (hok x hx).2 (hclean x hx)
+    x.name ((stream x.o x.g0 x.items).length + 2) (Nat.le_refl _) 0 0).1
+  simpa [StreamSpec.source, streamSource_reader, streamSource_fuel] using this
+
+/-- **clean_no_reports.**  Clean streams (values separated by white space only), on stdin or in files: under
+every `--on-error` policy there is no error to report (`errsOfSources … = []`), the run succeeds, standard
+output holds no report line (it is the header and the rows), standard error is untouched. -/
+theorem clean_no_reports (orc : Oracles) (c : Cfg) (specs : List StreamSpec) (wOut wErr : Writer) (p : Pipeline)
+    (hok : ∀ s ∈ specs, s.OK) (hclean : ∀ s ∈ specs, s.Clean)
+    (hb : build orc c = .ok p) (hna : NoAbort orc p.cfgs) (hw : Unbounded wOut)
+    (he : c.onError = .stderr → Unbounded wErr) (hh : ¬ HeaderMissing p) :
+    errsOfSources (evalT orc) c p.cfgs (specs.map StreamSpec.source) 0 p.sts = []
+    ∧ (run orc c (specs.map StreamSpec.source) wOut wErr).result = .ok ()
+    ∧ (run orc c (specs.map StreamSpec.source) wOut wErr).stdout
+        = wOut.out ++ headerBytes p ++
+          (specRows (evalT orc) p.cfgs p.sts (ctxsOfSources c (specs.map StreamSpec.source) 0)).flatMap
+            (sinkBytes p.sink p.sinkLen)
+    ∧ (run orc c (specs.map StreamSpec.source) wOut wErr).stderr = wErr.out :=
+  no_errors_no_reports orc c _ wOut wErr p hb hna hw he (cleanIO_specs specs)
+    (noErrors_specs specs hok hclean) hh
+
+/-- non-vacuity: the clean twin of `1 x 2\n` -/
+example : (⟨none, {}, ({} : Gap).strip, stripItems exItems⟩ : StreamSpec).OK
+    ∧ (⟨none, {}, ({} : Gap).strip, stripItems exItems⟩ : StreamSpec).Clean :=
+  ⟨⟨Gap.strip_OK emptyGap_ok, stripItems_OK _ _ exItems_ok⟩, garbageCount_strip _ _⟩
+
+/-! ### 3 (general chains). rows that differ in their locations only
+
+The parser never changes the name part of the reader's location. -/
+
+/-- the action keeps the name in the reader's location -/
+structure PName {α} (m : PM α) : Prop where
+  name : ∀ r, (m r).2.loc.name = r.loc.name
+
+theorem pname_pure {α} (a : α) : PName (pure a : PM α) := ⟨fun _ => rfl⟩
+theorem pname_fail {α} (e : PErr) : PName (PM.fail e : PM α) := ⟨fun _ => rfl⟩
+theorem pname_locErr {α} (mk : Loc → PErr) : PName (locErr mk : PM α) := ⟨fun _ => rfl⟩
+
+theorem pname_bind {α β} {m : PM α} {f : α → PM β} (hm : PName m) (hf : ∀ a, PName (f a)) :
+    PName (m >>= f) := by
+  constructor
+  intro r
+  have h1 := hm.name r
+  simp only [PM.bind_apply]
+  cases h : m r with
+  | mk res r1 =>
+    rw [h] at h1
+    cases res with
+    | error e => exact h1
+    | ok a => exact ((hf a).name r1).trans h1
+
+theorem next_pname : PName Reader.next := by
+  constructor
+  intro r
+  cases r with
+  | mk rest cur eof loc pulled =>
+    cases eof with
+    | true => rfl
+    | false =>
+      cases rest with
+      | nil => rfl
+      | cons it rest =>
+        cases it with
+        | err => rfl
+        | byte b =>
+          by_cases hb : b = 10 <;> simp [Reader.next, hb]
+
+theorem peek_pname : PName Reader.peek := by
+  constructor
+  intro r
+  unfold Reader.peek
+  split
+  · rfl
+  · exact next_pname.name r
+
+macro "pname_step" : tactic => `(tactic| first
+  | with_reducible exact pname_pure _
+  | with_reducible exact pname_fail _
+  | with_reducible exact pname_locErr _
+  | with_reducible exact next_pname
+  | with_reducible exact peek_pname
+  | with_reducible assumption
+  | with_reducible apply pname_bind
+  | intro _
+  | split)
+
+syntax "pname" ("[" term,* "]")? : tactic
+macro_rules
+  | `(tactic| pname) => `(tactic| repeat' pname_step)
+  | `(tactic| pname [$ts,*]) =>
+    `(tactic| repeat' (first | pname_step $[| with_reducible exact $ts]*))
+
+theorem eatWhitespace_pname (fuel : Nat) : PName (eatWhitespace fuel) := by
+  induction fuel with
+  | zero => exact pname_fail _
+  | succ fuel ih => unfold eatWhitespace; pname
+
+theorem readDigits_pname (fuel : Nat) (acc : List Byte) : PName (readDigits fuel acc) := by
+  induction fuel generalizing acc with
+  | zero => exact pname_fail _
+  | succ fuel ih => unfold readDigits; pname [ih _]
+
+theorem readWordTail_pname (word : String) (es : List Byte) : PName (readWordTail word es) := by
+  induction es with
+  | nil => unfold readWordTail; pname
+  | cons e es ih => unfold readWordTail; pname
+
+theorem readHex4_pname (k acc : Nat) : PName (readHex4 k acc) := by
+  induction k generalizing acc with
+  | zero => exact pname_pure _
+  | succ k ih => unfold readHex4; pname [ih _]
+
+theorem readStringLoop_pname (fuel : Nat) (acc : List Byte) : PName (readStringLoop fuel acc) := by
+  induction fuel generalizing acc with
+  | zero => exact pname_fail _
+  | succ fuel ih => unfold readStringLoop; pname [ih _, readHex4_pname _ _]
+
+theorem parseToDouble_pname (t : List Byte) : PName (parseToDouble t) := by
+  unfold parseToDouble; pname
+
+theorem readNumber_pname (fuel : Nat) : PName (readNumber fuel) := by
+  unfold readNumber
+  pname [readDigits_pname _ _, parseToDouble_pname _]
+
+structure ValueName (fuel : Nat) : Prop where
+  value : PName (nextValue fuel)
+  array : PName (readArray fuel)
+  arrayLoop : ∀ acc, PName (readArrayLoop fuel acc)
+  object : PName (readObject fuel)
+  objectLoop : ∀ acc, PName (readObjectLoop fuel acc)
+
+theorem valueName (fuel : Nat) : ValueName fuel := by
+  induction fuel with
+  | zero =>
+    refine ⟨?_, ?_, fun _ => ?_, ?_, fun _ => ?_⟩
+    · unfold nextValue; exact pname_fail _
+    · unfold readArray; exact pname_fail _
+    · unfold readArrayLoop; exact pname_fail _
+    · unfold readObject; exact pname_fail _
+    · unfold readObjectLoop; exact pname_fail _
+  | succ fuel ih =>
+    refine ⟨?_, ?_, fun _ => ?_, ?_, fun _ => ?_⟩
+    · unfold nextValue
+      pname [eatWhitespace_pname _, readWordTail_pname _ _, readStringLoop_pname _ _,
+        readNumber_pname _, ih.array, ih.object]
+    · unfold readArray
+      pname [eatWhitespace_pname _, ih.arrayLoop _]
+    · unfold readArrayLoop
+      pname [eatWhitespace_pname _, ih.arrayLoop _, ih.value]
+    · unfold readObject
+      pname [eatWhitespace_pname _, ih.objectLoop _]
+    · unfold readObjectLoop
+      pname [eatWhitespace_pname _, ih.objectLoop _, ih.value]
+
+/-- `nextJson` never changes the name in the reader's location -/
+theorem nextJson_name (r : Reader) : (Reader.nextJson r).2.loc.name = r.loc.name :=
+  (valueName _).value.name r
+
+/-- a location without its line and column -/
+def eraseLoc (l : Loc) : Loc := { name := l.name, line := 0, col := 0 }
+
+def eraseI (ic : InputCtx) : InputCtx :=
+  { ic with startLoc := eraseLoc ic.startLoc, endLoc := eraseLoc ic.endLoc }
+
+/-- a row without the line/column of its start and end locations (file name and ordinals kept) -/
+def erase (x : Ctx) : Ctx := { x with ictx := x.ictx.map eraseI }
+
+/-- the erased row of a value read from the source `name` with ordinals `ord` -/
+def mkRow (name : Option Str) (x : JV × Option (Nat × Nat)) : Ctx :=
+  { input := x.1,
+    ictx := x.2.map (fun ik => { startLoc := { name := name, line := 0, col := 0 },
+                                 endLoc := { name := name, line := 0, col := 0 },
+                                 fileIndex := ik.1, index := ik.2 }) }
+
+/-- the rows of a source, locations erased, are determined by the values read and the source's name -/
+theorem ctxsOf_erase (c : Cfg) (fuel : Nat) (r : Reader) (i k : Nat) :
+    (ctxsOf c fuel r i k).map erase
+      = (number i k ((ctxsOf c fuel r i k).map (·.input))).map (mkRow r.loc.name) := by
+  induction fuel generalizing r i k with
+  | zero => rfl
+  | succ fuel ih =>
+    have hname := nextJson_name r
+    rcases hn : r.nextJson with ⟨res, r'⟩
+    rw [hn] at hname
+    simp only at hname
+    cases res with
+    | error e =>
+      simp only [ctxsOf, hn]
+      split
+      · rw [ih, hname]
+      · rfl
+    | ok o =>
+      cases o with
+      | none => simp only [ctxsOf, hn]; rfl
+      | some v =>
+        simp only [ctxsOf, hn]
+        split
+        · rw [ih, hname]
+        · simp only [List.map_cons, number, ih, hname]
+          congr 1
+          simp only [erase, mkRow, eraseI, eraseLoc, Option.map_some, hname]
+
+theorem ofBytes_name (bs : List Byte) (name : Option Str) : (Reader.ofBytes bs name).loc.name = name := rfl
+
+/-- the rows of a noisy stream and of its clean twin differ in line/column only -/
+theorem noisy_clean_erase (c : Cfg) (o : JsonOpts) (g0 : Gap) (items : List (JV × Gap)) (h0 : g0.OK)
+    (hit : ItemsOK o items) (name : Option Str) (fuel fuel' : Nat)
+    (hf : (stream o g0 items).length + 2 ≤ fuel)
+    (hf' : (stream o g0.strip (stripItems items)).length + 2 ≤ fuel') (i k : Nat) :
+    (ctxsOf c fuel (Reader.ofBytes (stream o g0 items) name) i k).map erase
+      = (ctxsOf c fuel' (Reader.ofBytes (stream o g0.strip (stripItems items)) name) i k).map erase := by
+  have hN := (noisy_rows c o g0 items h0 hit name fuel hf i k).1
+  have hC := (noisy_rows c o g0.strip (stripItems items) (Gap.strip_OK h0) (stripItems_OK o items hit) name
+    fuel' hf' i k).1
+  rw [stripItems_values] at hC
+  rw [ctxsOf_erase, ctxsOf_erase, hN, hC, ofBytes_name, ofBytes_name]
+
+/-! ### the documented composition does not look at locations unless an expression does -/
+
+/-- the four positional input-context readers (`file-name` and the two ordinals are not positional) -/
+def ICtxKind.positional : ICtxKind → Bool
+  | .startLine | .endLine | .startChar | .endChar => true
+  | _ => false
+
+mutual
+/-- the expression reads neither line nor column: no positional input-context node, and no call of
+`parse_selection` (which evaluates an expression parsed at run time) -/
+def NoPos : Expr → Bool
+  | .ictx k => !ICtxKind.positional k
+  | .call fn args => fn != "parse_selection" && NoPosList args
+  | _ => true
+def NoPosList : List Expr → Bool
+  | [] => true
+  | e :: es => NoPos e && NoPosList es
+end
+
+theorem noPosList_iff (l : List Expr) : NoPosList l = true ↔ ∀ e ∈ l, NoPos e = true := by
+  induction l with
+  | nil => simp [NoPosList]
+  | cons x xs ih => simp [NoPosList, ih]
+
+/-- no macro definition reads line or column -/
+def DefsNoPos (defs : List (Str × Expr)) : Prop := ∀ p ∈ defs, NoPos p.2 = true
+
+theorem defsNoPos_nil : DefsNoPos [] := fun _ h => by cases h
+
+/-- the (total) evaluator gives the same answer for `e` whatever the line/column of the row, as long as the
+macros in scope do not read them either -/
+def PosIndep (ev : Expr → Ctx → Option JV) (e : Expr) : Prop :=
+  ∀ x : Ctx, DefsNoPos x.defs → ev e (erase x) = ev e x
+
+/-- no expression of the chain, and no macro a `--set @name=…` defines, reads line or column -/
+def ChainPosIndep (ev : Expr → Ctx → Option JV) (cfgs : List StageCfg) : Prop :=
+  (∀ c ∈ cfgs, ∀ e ∈ stageExprs c, PosIndep ev e) ∧
+  (∀ vars defs, StageCfg.preset vars defs ∈ cfgs → DefsNoPos defs)
+
+/-- every row's macros are position free -/
+def RowsOK (rows : List Ctx) : Prop := ∀ x ∈ rows, DefsNoPos x.defs
+
+theorem RowsOK.tail {x : Ctx} {rows : List Ctx} (h : RowsOK (x :: rows)) : RowsOK rows :=
+  fun y hy => h y (List.mem_cons_of_mem _ hy)
+
+theorem RowsOK.head {x : Ctx} {rows : List Ctx} (h : RowsOK (x :: rows)) : DefsNoPos x.defs :=
+  h x List.mem_cons_self
+
+theorem RowsOK.of_sublist {a b : List Ctx} (h : RowsOK b) (hs : a.Sublist b) : RowsOK a :=
+  fun y hy => h y (hs.subset hy)
+
+theorem erase_build (x : Ctx) : (erase x).build = x.build := rfl
+theorem erase_key (x : Ctx) : (erase x).key = x.key := rfl
+theorem erase_defs (x : Ctx) : (erase x).defs = x.defs := rfl
+
+theorem sinkBytes_erase (sink : SinkCfg) (n : Nat) (x : Ctx) : sinkBytes sink n (erase x) = sinkBytes sink n x := by
+  cases sink <;> rfl
+
+theorem rowsOK_erase {rows : List Ctx} (h : RowsOK rows) : RowsOK (rows.map erase) := by
+  intro y hy
+  obtain ⟨x, hx, rfl⟩ := List.mem_map.mp hy
+  exact h x hx
+
+theorem dedupFrom_erase (seen : List CtxKey) (rows : List Ctx) :
+    dedupFrom seen (rows.map erase) = (dedupFrom seen rows).map erase := by
+  induction rows generalizing seen with
+  | nil => rfl
+  | cons x rows ih =>
+    simp only [List.map_cons, dedupFrom, erase_key]
+    by_cases hc : (seen.any fun s => s.same x.key) = true
+    · simp only [hc, if_true]
+      exact ih _
+    · simp only [hc, Bool.false_eq_true, if_false, List.map_cons, ih]
+
+theorem insertAsc_map {α κ : Type} (cmp : κ → κ → Ordering) (key : α → κ) (g : α → α)
+    (hg : ∀ a, key (g a) = key a) (x : α) (l : List α) :
+    SortSpec.insertAsc cmp key (g x) (l.map g) = (SortSpec.insertAsc cmp key x l).map g := by
+  induction l with
+  | nil => rfl
+  | cons y ys ih =>
+    simp only [List.map_cons, SortSpec.insertAsc, hg]
+    split
+    · rfl
+    · simp only [List.map_cons, ih]
+
+theorem insertDesc_map {α κ : Type} (cmp : κ → κ → Ordering) (key : α → κ) (g : α → α)
+    (hg : ∀ a, key (g a) = key a) (x : α) (l : List α) :
+    SortSpec.insertDesc cmp key (g x) (l.map g) = (SortSpec.insertDesc cmp key x l).map g := by
+  induction l with
+  | nil => rfl
+  | cons y ys ih =>
+    simp only [List.map_cons, SortSpec.insertDesc, hg]
+    split
+    · rfl
+    · simp only [List.map_cons, ih]
+
+theorem sortDir_map {α κ : Type} (cmp : κ → κ → Ordering) (key : α → κ) (g : α → α)
+    (hg : ∀ a, key (g a) = key a) (desc : Bool) (l : List α) :
+    SortSpec.sortDir cmp key desc (l.map g) = (SortSpec.sortDir cmp key desc l).map g := by
+  have gen : ∀ (acc : List α),
+      (l.map g).foldl (fun acc x => SortSpec.insertDir cmp key desc x acc) (acc.map g)
+        = (l.foldl (fun acc x => SortSpec.insertDir cmp key desc x acc) acc).map g := by
+    induction l with
+    | nil => intro acc; rfl
+    | cons x l ih =>
+      intro acc
+      simp only [List.map_cons, List.foldl_cons]
+      have : SortSpec.insertDir cmp key desc (g x) (acc.map g)
+          = (SortSpec.insertDir cmp key desc x acc).map g := by
+        unfold SortSpec.insertDir
+        split
+        · exact insertDesc_map cmp key g hg x acc
+        · exact insertAsc_map cmp key g hg x acc
+      rw [this, ih]
+  exact gen []
+
+theorem mem_insertAsc {α κ : Type} (cmp : κ → κ → Ordering) (key : α → κ) (x y : α) (l : List α)
+    (h : y ∈ SortSpec.insertAsc cmp key x l) : y = x ∨ y ∈ l := by
+  induction l with
+  | nil => simp only [SortSpec.insertAsc, List.mem_singleton] at h; exact .inl h
+  | cons z zs ih =>
+    simp only [SortSpec.insertAsc] at h
+    split at h
+    · simpa using h
+    · rcases List.mem_cons.mp h with rfl | h
+      · exact .inr (by simp)
+      · rcases ih h with h | h
+        · exact .inl h
+        · exact .inr (by simp [h])
+
+theorem mem_insertDesc {α κ : Type} (cmp : κ → κ → Ordering) (key : α → κ) (x y : α) (l : List α)
+    (h : y ∈ SortSpec.insertDesc cmp key x l) : y = x ∨ y ∈ l := by
+  induction l with
+  | nil => simp only [SortSpec.insertDesc, List.mem_singleton] at h; exact .inl h
+  | cons z zs ih =>
+    simp only [SortSpec.insertDesc] at h
+    split at h
+    · simpa using h
+    · rcases List.mem_cons.mp h with rfl | h
+      · exact .inr (by simp)
+      · rcases ih h with h | h
+        · exact .inl h
+        · exact .inr (by simp [h])
+
+theorem mem_insertDir {α κ : Type} (cmp : κ → κ → Ordering) (key : α → κ) (desc : Bool) (x y : α) (l : List α)
+    (h : y ∈ SortSpec.insertDir cmp key desc x l) : y = x ∨ y ∈ l := by
+  unfold SortSpec.insertDir at h
+  split at h
+  · exact mem_insertDesc cmp key x y l h
+  · exact mem_insertAsc cmp key x y l h
+
+theorem mem_foldl_insertDir {α κ : Type} (cmp : κ → κ → Ordering) (key : α → κ) (desc : Bool) (y : α)
+    (l acc : List α) (h : y ∈ l.foldl (fun acc x => SortSpec.insertDir cmp key desc x acc) acc) :
+    y ∈ acc ∨ y ∈ l := by
+  induction l generalizing acc with
+  | nil => exact .inl h
+  | cons x l ih =>
+    simp only [List.foldl_cons] at h
+    rcases ih _ h with h | h
+    · rcases mem_insertDir cmp key desc x y acc h with rfl | h
+      · exact .inr (by simp)
+      · exact .inl h
+    · exact .inr (by simp [h])
+
+theorem mem_sortDir {α κ : Type} (cmp : κ → κ → Ordering) (key : α → κ) (desc : Bool) (y : α) (l : List α)
+    (h : y ∈ SortSpec.sortDir cmp key desc l) : y ∈ l := by
+  rcases mem_foldl_insertDir cmp key desc y l [] h with h | h
+  · cases h
+  · exact h
+
+theorem keyed_erase (ev : Expr → Ctx → Option JV) (key : Expr) (rows : List Ctx)
+    (hk : ∀ x ∈ rows, ev key (erase x) = ev key x) :
+    keyed ev key (rows.map erase) = (keyed ev key rows).map (fun kc => (kc.1, erase kc.2)) := by
+  induction rows with
+  | nil => rfl
+  | cons x rows ih =>
+    have ih' := ih (fun y hy => hk y (by simp [hy]))
+    simp only [keyed, List.map_cons, List.filterMap_cons, hk x (by simp)] at ih' ⊢
+    cases ev key x with
+    | none => simpa using ih'
+    | some k => simpa using ih'
+
+theorem mem_keyed (ev : Expr → Ctx → Option JV) (key : Expr) (rows : List Ctx) (kc : JV × Ctx)
+    (h : kc ∈ keyed ev key rows) : kc.2 ∈ rows := by
+  simp only [keyed, List.mem_filterMap] at h
+  obtain ⟨x, hx, hm⟩ := h
+  cases hk : ev key x with
+  | none => simp [hk] at hm
+  | some k =>
+    simp only [hk, Option.map_some, Option.some.injEq] at hm
+    subst hm
+    exact hx
+
+theorem takeOpt_map {α β} (f : α → β) (n : Option Nat) (l : List α) :
+    takeOpt n (l.map f) = (takeOpt n l).map f := by
+  cases n <;> simp [takeOpt, List.map_take]
+
+theorem takeOpt_sublist {α} (n : Option Nat) (l : List α) : (takeOpt n l).Sublist l := by
+  cases n with
+  | none => exact List.Sublist.refl _
+  | some k => exact List.take_sublist _ _
+
+theorem groupOf_erase (ev : Expr → Ctx → Option JV) (e : Expr) (rows : List Ctx)
+    (he : ∀ x ∈ rows, ev e (erase x) = ev e x) :
+    groupOf ev e (rows.map erase) = groupOf ev e rows := by
+  unfold groupOf
+  generalize ([] : List (Str × List JV)) = acc
+  induction rows generalizing acc with
+  | nil => rfl
+  | cons x rows ih =>
+    simp only [List.map_cons, List.foldl_cons, he x (by simp), erase_build]
+    exact ih (fun y hy => he y (by simp [hy])) _
+
+/-- one stage commutes with erasing the locations -/
+theorem stageSpec_erase (ev : Expr → Ctx → Option JV) (c : StageCfg) (cap : Option Nat)
+    (hc : ∀ e ∈ stageExprs c, PosIndep ev e) (rows : List Ctx) (hrows : RowsOK rows) :
+    stageSpec ev c cap (rows.map erase) = (stageSpec ev c cap rows).map erase := by
+  cases c with
+  | preset vars defs =>
+    simp only [stageSpec, List.map_map]
+    rfl
+  | split e =>
+    have he := hc e (by simp [stageExprs])
+    simp only [stageSpec]
+    induction rows with
+    | nil => rfl
+    | cons x rows ih =>
+      simp only [List.map_cons, List.flatMap_cons, List.map_append, ih hrows.tail, he x hrows.head]
+      congr 1
+      cases ev e x with
+      | none => rfl
+      | some v =>
+        cases v <;> first | rfl | (simp only [List.map_map]; rfl)
+  | filter e =>
+    have he := hc e (by simp [stageExprs])
+    simp only [stageSpec]
+    induction rows with
+    | nil => rfl
+    | cons x rows ih =>
+      simp only [List.map_cons, List.filter_cons, he x hrows.head, ih hrows.tail]
+      split <;> rfl
+  | select name e =>
+    have he := hc e (by simp [stageExprs])
+    simp only [stageSpec, List.map_map]
+    apply List.map_congr_left
+    intro x hx
+    simp only [Function.comp, he x (hrows x hx)]
+    rfl
+  | unique => exact dedupFrom_erase [] rows
+  | sort key desc =>
+    have hk := hc key (by simp [stageExprs])
+    simp only [stageSpec]
+    rw [keyed_erase ev key rows (fun x hx => hk x (hrows x hx)),
+      sortDir_map JV.cmp (·.1) (fun kc : JV × Ctx => (kc.1, erase kc.2)) (fun _ => rfl), ← takeOpt_map]
+    simp only [List.map_map]
+    rfl
+  | limit skip take =>
+    simp only [stageSpec]
+    rw [← takeOpt_map, List.map_drop]
+  | group e =>
+    have he := hc e (by simp [stageExprs])
+    simp only [stageSpec, groupOf_erase ev e rows (fun x hx => he x (hrows x hx))]
+    rfl
+  | merge =>
+    simp only [stageSpec, List.map_map]
+    rfl
+
+/-- one stage keeps the macros in scope position free -/
+theorem stageSpec_rowsOK (ev : Expr → Ctx → Option JV) (c : StageCfg) (cap : Option Nat)
+    (hp : ∀ vars defs, c = .preset vars defs → DefsNoPos defs) (rows : List Ctx) (hrows : RowsOK rows) :
+    RowsOK (stageSpec ev c cap rows) := by
+  cases c with
+  | preset vars defs =>
+    intro y hy
+    simp only [stageSpec, List.mem_map] at hy
+    obtain ⟨x, _, rfl⟩ := hy
+    exact hp vars defs rfl
+  | split e =>
+    intro y hy
+    simp only [stageSpec, List.mem_flatMap] at hy
+    obtain ⟨x, hx, hy⟩ := hy
+    cases hv : ev e x with
+    | none => simp [hv] at hy
+    | some v =>
+      cases v <;> simp only [hv, List.not_mem_nil] at hy
+      obtain ⟨w, _, rfl⟩ := List.mem_map.mp hy
+      exact hrows x hx
+  | filter e => exact hrows.of_sublist List.filter_sublist
+  | select name e =>
+    intro y hy
+    simp only [stageSpec, List.mem_map] at hy
+    obtain ⟨x, hx, rfl⟩ := hy
+    exact hrows x hx
+  | unique => exact hrows.of_sublist (dedupFrom_sublist [] rows)
+  | sort key desc =>
+    intro y hy
+    simp only [stageSpec] at hy
+    have hy' := (takeOpt_sublist cap _).subset hy
+    obtain ⟨kc, hkc, rfl⟩ := List.mem_map.mp hy'
+    exact hrows _ (mem_keyed ev key rows kc (mem_sortDir _ _ _ _ _ hkc))
+  | limit skip take =>
+    exact hrows.of_sublist ((takeOpt_sublist take _).trans (List.drop_sublist _ _))
+  | group e =>
+    intro y hy
+    simp only [stageSpec, List.mem_singleton] at hy
+    subst hy
+    exact defsNoPos_nil
+  | merge =>
+    intro y hy
+    simp only [stageSpec, List.mem_singleton] at hy
+    subst hy
+    exact defsNoPos_nil
+
+/-- the documented composition commutes with erasing the locations -/
+theorem specRows_erase (ev : Expr → Ctx → Option JV) (cfgs : List StageCfg) (sts : List StageSt)
+    (h : ChainPosIndep ev cfgs) (rows : List Ctx) (hrows : RowsOK rows) :
+    specRows ev cfgs sts (rows.map erase) = (specRows ev cfgs sts rows).map erase := by
+  induction cfgs generalizing sts rows with
+  | nil => simp [specRows]
+  | cons c cs ih =>
+    cases sts with
+    | nil => simp [specRows]
+    | cons st sts =>
+      simp only [specRows]
+      rw [stageSpec_erase ev c _ (h.1 c (by simp)) rows hrows]
+      exact ih sts ⟨fun c' hc' => h.1 c' (by simp [hc']), fun v d hd => h.2 v d (by simp [hd])⟩ _
+        (stageSpec_rowsOK ev c _ (fun v d hcd => h.2 v d (by simp [hcd])) rows hrows)
+
+/-- **specRows_congr_input.**  If no expression of the chain (and no macro in scope) reads line or column, the
+bytes the sink writes for `specRows` depend on the rows only up to their line/column: two row lists that agree
+once locations are erased (same values, same ordinals, same file names) give the same output. -/
+theorem specRows_congr_input (ev : Expr → Ctx → Option JV) (cfgs : List StageCfg) (sts : List StageSt)
+    (sink : SinkCfg) (n : Nat) (h : ChainPosIndep ev cfgs) (rows₁ rows₂ : List Ctx)
+    (h₁ : RowsOK rows₁) (h₂ : RowsOK rows₂) (heq : rows₁.map erase = rows₂.map erase) :
+    (specRows ev cfgs sts rows₁).flatMap (sinkBytes sink n)
+      = (specRows ev cfgs sts rows₂).flatMap (sinkBytes sink n) := by
+  have key : ∀ rows : List Ctx, rows.flatMap (sinkBytes sink n) = (rows.map erase).flatMap (sinkBytes sink n) := by
+    intro rows
+    induction rows with
+    | nil => rfl
+    | cons x rows ih => simp only [List.map_cons, List.flatMap_cons, sinkBytes_erase, ih]
+  rw [key (specRows ev cfgs sts rows₁), key (specRows ev cfgs sts rows₂),
+    ← specRows_erase ev cfgs sts h _ h₁, ← specRows_erase ev cfgs sts h _ h₂, heq]
+
+/-- the rows the read loop makes have no macro in scope -/
+theorem ctxsOf_defs (c : Cfg) (fuel : Nat) (r : Reader) (inFile idx : Nat) :
+    ∀ ctx ∈ ctxsOf c fuel r inFile idx, ctx.defs = [] := by
+  induction fuel generalizing r inFile idx with
+  | zero => intro ctx h; cases h
+  | succ fuel ih =>
+    intro ctx h
+    unfold ctxsOf at h
+    split at h
+    · split at h
+      · exact ih _ _ _ ctx h
+      · rcases List.mem_cons.mp h with rfl | h
+        · rfl
+        · exact ih _ _ _ ctx h
+    · cases h
+    · split at h
+      · exact ih _ _ _ ctx h
+      · cases h
+
+theorem ctxsOfSources_rowsOK (c : Cfg) (sources : List Source) (idx : Nat) :
+    RowsOK (ctxsOfSources c sources idx) := by
+  induction sources generalizing idx with
+  | nil => intro ctx h; cases h
+  | cons src rest ih =>
+    intro ctx h
+    unfold ctxsOfSources at h
+    rcases List.mem_append.mp h with h | h
+    · rw [ctxsOf_defs _ _ _ _ _ ctx h]
+      exact defsNoPos_nil
+    · exact ih _ ctx h
+/-! ### run level, any chain that does not read line/column: a noisy input and its clean twin -/
+
+/-- the clean twin of a stream -/
+def StreamSpec.strip (s : StreamSpec) : StreamSpec := { s with g0 := s.g0.strip, items := stripItems s.items }
+
+theorem StreamSpec.strip_OK {s : StreamSpec} (h : s.OK) : s.strip.OK :=
+  ⟨Gap.strip_OK h.1, stripItems_OK _ _ h.2⟩
+
+theorem StreamSpec.strip_clean (s : StreamSpec) : s.strip.Clean := garbageCount_strip _ _
+
+/-- the rows of noisy inputs and of their clean twins differ in line/column only -/
+theorem ctxsOfSources_erase_strip (c : Cfg) (specs : List StreamSpec) (hok : ∀ s ∈ specs, s.OK) (k : Nat) :
+    (ctxsOfSources c (specs.map StreamSpec.source) k).map erase
+      = (ctxsOfSources c (specs.map (fun s => s.strip.source)) k).map erase := by
+  induction specs generalizing k with
+  | nil => rfl
+  | cons s rest ih =>
+    have h1 := noisy_clean_erase c s.o s.g0 s.items (hok s (by simp)).1 (hok s (by simp)).2 s.name
+      ((stream s.o s.g0 s.items).length + 2) ((stream s.o s.g0.strip (stripItems s.items)).length + 2)
+      (Nat.le_refl _) (Nat.le_refl _) 0 k
+    have hlen := congrArg List.length h1
+    simp only [List.length_map] at hlen
+    simp only [List.map_cons, ctxsOfSources, StreamSpec.source, StreamSpec.strip, streamSource_reader,
+      streamSource_fuel, List.map_append]
+    rw [h1, hlen]
+    congr 1
+    exact ih (fun x hx => hok x (by simp [hx])) _
+
+/-- **noise_ignore_same_output.**  Under `ignore`, for a chain none of whose expressions reads line or column:
+the run over noisy inputs and the run over their clean twins succeed and write the same bytes. -/
+theorem noise_ignore_same_output (orc : Oracles) (c : Cfg) (specs : List StreamSpec) (wOut wErr : Writer)
+    (p : Pipeline) (hok : ∀ s ∈ specs, s.OK) (hpol : c.onError = .ignore) (hb : build orc c = .ok p)
+    (hna : NoAbort orc p.cfgs) (hpi : ChainPosIndep (evalT orc) p.cfgs) (hw : Unbounded wOut)
+    (hh : ¬ HeaderMissing p) :
+    (run orc c (specs.map StreamSpec.source) wOut wErr).result = .ok ()
+    ∧ (run orc c (specs.map (fun s => s.strip.source)) wOut wErr).result = .ok ()
+    ∧ (run orc c (specs.map StreamSpec.source) wOut wErr).stdout
+        = (run orc c (specs.map (fun s => s.strip.source)) wOut wErr).stdout
+    ∧ (run orc c (specs.map StreamSpec.source) wOut wErr).stderr = wErr.out
+    ∧ (run orc c (specs.map (fun s => s.strip.source)) wOut wErr).stderr = wErr.out := by
+  obtain ⟨n1, n2, n3⟩ := run_ignore_spec orc c _ wOut wErr p hpol hb hna hw (cleanIO_specs specs) hh
+  have hcl : CleanIO (specs.map (fun s => s.strip.source)) := by
+    have := cleanIO_specs (specs.map StreamSpec.strip)
+    simpa [List.map_map, Function.comp_def] using this
+  obtain ⟨c1, c2, c3⟩ := run_ignore_spec orc c _ wOut wErr p hpol hb hna hw hcl hh
+  refine ⟨n1, c1, ?_, n3, c3⟩
+  rw [n2, c2, specRows_congr_input (evalT orc) p.cfgs p.sts p.sink p.sinkLen hpi _ _
+    (ctxsOfSources_rowsOK _ _ _) (ctxsOfSources_rowsOK _ _ _) (ctxsOfSources_erase_strip c specs hok 0)]
+
+/-- **noise_stderr_same_output.**  Under `stderr` (same assumptions, standard error never failing): standard
+output is byte for byte that of the clean run; the clean run leaves standard error untouched, the noisy run
+appends one `error:` line per error met — nothing else goes there. -/
+theorem noise_stderr_same_output (orc : Oracles) (c : Cfg) (specs : List StreamSpec) (wOut wErr : Writer)
+    (p : Pipeline) (hok : ∀ s ∈ specs, s.OK) (hpol : c.onError = .stderr) (hb : build orc c = .ok p)
+    (hna : NoAbort orc p.cfgs) (hpi : ChainPosIndep (evalT orc) p.cfgs) (hw : Unbounded wOut)
+    (he : Unbounded wErr) (hh : ¬ HeaderMissing p) :
+    (run orc c (specs.map StreamSpec.source) wOut wErr).result = .ok ()
+    ∧ (run orc c (specs.map (fun s => s.strip.source)) wOut wErr).result = .ok ()
+    ∧ (run orc c (specs.map StreamSpec.source) wOut wErr).stdout
+        = (run orc c (specs.map (fun s => s.strip.source)) wOut wErr).stdout
+    ∧ (run orc c (specs.map StreamSpec.source) wOut wErr).stderr
+        = wErr.out ++ (errsOfSources (evalT orc) c p.cfgs (specs.map StreamSpec.source) 0 p.sts).flatMap reportBytes
+    ∧ (run orc c (specs.map (fun s => s.strip.source)) wOut wErr).stderr = wErr.out := by
+  obtain ⟨n1, n2, n3⟩ := policy_stderr_same_rows orc c _ wOut wErr p hpol hb hna hw he (cleanIO_specs specs) hh
+  have hmap : specs.map (fun s => s.strip.source) = (specs.map StreamSpec.strip).map StreamSpec.source := by
+    simp [List.map_map, Function.comp_def]
+  obtain ⟨_, c1, c2, c3⟩ := clean_no_reports orc c (specs.map StreamSpec.strip) wOut wErr p
+    (by intro s hs; obtain ⟨x, hx, rfl⟩ := List.mem_map.mp hs; exact StreamSpec.strip_OK (hok x hx))
+    (by intro s hs; obtain ⟨x, _, rfl⟩ := List.mem_map.mp hs; exact StreamSpec.strip_clean x)
+    hb hna hw (fun _ => he) hh
+  rw [← hmap] at c1 c2 c3
+  refine ⟨n1, c1, ?_, n3, c3⟩
+  rw [n2, c2, specRows_congr_input (evalT orc) p.cfgs p.sts p.sink p.sinkLen hpi _ _
+    (ctxsOfSources_rowsOK _ _ _) (ctxsOfSources_rowsOK _ _ _) (ctxsOfSources_erase_strip c specs hok 0)]
+
+/-- **noise_stdout_same_rows.**  Under `stdout` (same assumptions): what the noisy run writes to standard output
+is the header and a sequence of chunks; the report chunks are the `error:` lines of the errors met, in order,
+and with them removed the output is byte for byte that of the clean run.  Standard error is untouched. -/
+theorem noise_stdout_same_rows (orc : Oracles) (c : Cfg) (specs : List StreamSpec) (wOut wErr : Writer)
+    (p : Pipeline) (hok : ∀ s ∈ specs, s.OK) (hpol : c.onError = .stdout) (hb : build orc c = .ok p)
+    (hna : NoAbort orc p.cfgs) (hpi : ChainPosIndep (evalT orc) p.cfgs) (hw : Unbounded wOut)
+    (hh : ¬ HeaderMissing p) :
+    ∃ ch : Chunks,
+      (run orc c (specs.map StreamSpec.source) wOut wErr).result = .ok ()
+      ∧ (run orc c (specs.map (fun s => s.strip.source)) wOut wErr).result = .ok ()
+      ∧ (run orc c (specs.map StreamSpec.source) wOut wErr).stdout = wOut.out ++ headerBytes p ++ ch.bytes
+      ∧ (run orc c (specs.map (fun s => s.strip.source)) wOut wErr).stdout
+          = wOut.out ++ headerBytes p ++ ch.rowPart
+      ∧ ch.reports
+          = (errsOfSources (evalT orc) c p.cfgs (specs.map StreamSpec.source) 0 p.sts).map reportBytes
+      ∧ (run orc c (specs.map StreamSpec.source) wOut wErr).stderr = wErr.out
+      ∧ (run orc c (specs.map (fun s => s.strip.source)) wOut wErr).stderr = wErr.out := by
+  obtain ⟨ch, n1, n2, n3, n4, n5⟩ := RunSpec.policy_stdout orc c _ wOut wErr p hpol hb hna hw
+    (cleanIO_specs specs) hh
+  have hmap : specs.map (fun s => s.strip.source) = (specs.map StreamSpec.strip).map StreamSpec.source := by
+    simp [List.map_map, Function.comp_def]
+  obtain ⟨_, c1, c2, c3⟩ := clean_no_reports orc c (specs.map StreamSpec.strip) wOut wErr p
+    (by intro s hs; obtain ⟨x, hx, rfl⟩ := List.mem_map.mp hs; exact StreamSpec.strip_OK (hok x hx))
+    (by intro s hs; obtain ⟨x, _, rfl⟩ := List.mem_map.mp hs; exact StreamSpec.strip_clean x)
+    hb hna hw (fun h => by rw [hpol] at h; cases h) hh
+  rw [← hmap] at c1 c2 c3
+  refine ⟨ch, n1, c1, n2, ?_, n4, n5, c3⟩
+  rw [c2, n3, specRows_congr_input (evalT orc) p.cfgs p.sts p.sink p.sinkLen hpi _ _
+    (ctxsOfSources_rowsOK _ _ _) (ctxsOfSources_rowsOK _ _ _) (ctxsOfSources_erase_strip c specs hok 0)]
+
+/-- the errors reported for a single noisy stream: at most one per garbage byte, exactly one per garbage byte
+(hence at least one per malformed region) when the chain does not answer `Break` -/
+theorem errsOfSources_stream (ev : Expr → Ctx → Option JV) (c : Cfg) (cfgs : List StageCfg) (sts : List StageSt)
+    (s : StreamSpec) (hs : s.OK) (k : Nat) :
+    (errsOfSources ev c cfgs [s.source] k sts).length ≤ garbageCount s.g0 s.items ∧
+    ((feedBrk (processP ev cfgs) sts (ctxsOfSources c [s.source] k)).2.2 = .cont →
+      (errsOfSources ev c cfgs [s.source] k sts).length = garbageCount s.g0 s.items ∧
+      noisyGaps s.g0 s.items ≤ (errsOfSources ev c cfgs [s.source] k sts).length) := by
+  have e1 : errsOfSources ev c cfgs [s.source] k sts
+      = errsOf ev c cfgs ((stream s.o s.g0 s.items).length + 2)
+          (Reader.ofBytes (stream s.o s.g0 s.items) s.name) 0 k sts := by
+    simp only [errsOfSources, StreamSpec.source, streamSource_reader, streamSource_fuel]
+    split <;> simp
+  have e2 : ctxsOfSources c [s.source] k
+      = ctxsOf c ((stream s.o s.g0 s.items).length + 2) (Reader.ofBytes (stream s.o s.g0 s.items) s.name) 0 k :=
+    ctxsOfSources_stream c s.name s.o s.g0 s.items k
+  obtain ⟨h1, h2⟩ := noisy_errsOf ev c cfgs sts s.o s.g0 s.items hs.1 hs.2 s.name _ (Nat.le_refl _) 0 k
+  rw [e1, e2]
+  refine ⟨h1, fun hc => ?_⟩
+  have := h2 hc
+  exact ⟨this, by rw [this]; exact noisyGaps_le s.o s.g0 s.items hs.1 hs.2⟩
+
+/-! ### which expressions do not read line/column: every `NoPos` expression
+
+`callFn` hands its context to the evaluator only through `withInput` / `withVariable` / `withDefinition`, which
+commute with `erase`, and never reads the input context itself. -/
+
+/-- local hypotheses on the evaluator handed to a function body: it does not see the erasure -/
+structure HypE (ev : Ev) (fn : String) (args : List Expr) (x : Ctx) : Prop where
+  arg : ∀ e ∈ args, ∀ c : Ctx, c.defs = x.defs → ev e (erase c) = ev e c
+  defn : fn = "define" → ∀ e ∈ args, ∀ n, ∀ d ∈ args, ev e (erase (x.withDefinition n d)) = ev e (x.withDefinition n d)
+  mac : fn = "@" → ∀ n d, x.getDefinition n = some d → ev d (erase x) = ev d x
+  parsed : fn ≠ "parse_selection"
+
+theorem erase_withVariable (x : Ctx) (n : Str) (v : JV) : (erase x).withVariable n v = erase (x.withVariable n v) := rfl
+theorem erase_withDefinition (x : Ctx) (n : Str) (d : Expr) : (erase x).withDefinition n d = erase (x.withDefinition n d) := rfl
+theorem erase_withInput' (x : Ctx) (v : JV) : (erase x).withInput v = erase (x.withInput v) := rfl
+theorem erase_input (x : Ctx) : (erase x).input = x.input := rfl
+theorem erase_getVariable (x : Ctx) (n : Str) : (erase x).getVariable n = x.getVariable n := rfl
+theorem erase_getDefinition (x : Ctx) (n : Str) : (erase x).getDefinition n = x.getDefinition n := rfl
+theorem withInput_defs (x : Ctx) (v : JV) : (x.withInput v).defs = x.defs := rfl
+theorem withVariable_defs (x : Ctx) (n : Str) (v : JV) : (x.withVariable n v).defs = x.defs := rfl
+
+variable {ev : Ev} {fn : String} {args : List Expr} {x : Ctx}
+
+theorem applyArg_erase (H : HypE ev fn args x) (c : Ctx) (hc : c.defs = x.defs) (i : Nat) :
+    applyArg ev args (erase c) i = applyArg ev args c i := by
+  unfold applyArg
+  split
+  · next e h => exact H.arg e (List.mem_of_getElem? h) c hc
+  · rfl
+
+theorem applyArg_erase_def (H : HypE ev fn args x) (hfn : fn = "define") (n : Str) (d : Expr) (hd : d ∈ args) (i : Nat) :
+    applyArg ev args (erase (x.withDefinition n d)) i = applyArg ev args (x.withDefinition n d) i := by
+  unfold applyArg
+  split
+  · next e h => exact H.defn hfn e (List.mem_of_getElem? h) n d hd
+  · rfl
+
+theorem foldArgs_erase {σ} (H : HypE ev fn args x) (step : σ → Option JV → Except Abort (Sum (Option JV) σ))
+    (fin : σ → Option JV) (s : σ) :
+    foldArgs ev (erase x) step fin args s = foldArgs ev x step fin args s := by
+  have gen : ∀ (es : List Expr), (∀ e ∈ es, e ∈ args) → ∀ s,
+      foldArgs ev (erase x) step fin es s = foldArgs ev x step fin es s := by
+    intro es
+    induction es with
+    | nil => intro _ s; rfl
+    | cons e es ih =>
+      intro hsub s
+      unfold foldArgs
+      rw [H.arg e (hsub e (by simp)) x rfl]
+      congr 1
+      funext v
+      congr 1
+      funext r
+      split
+      · rfl
+      · exact ih (fun e he => hsub e (by simp [he])) _
+  exact gen args (fun _ h => h) s
+
+theorem go_erase (H : HypE ev fn args x) (c : Ctx) (hc : c.defs = x.defs) :
+    callBasic.go ev (erase c) args = callBasic.go ev c args := by
+  have gen : ∀ (es : List Expr), (∀ e ∈ es, e ∈ args) → ∀ c : Ctx, c.defs = x.defs →
+      callBasic.go ev (erase c) es = callBasic.go ev c es := by
+    intro es
+    induction es with
+    | nil => intro _ c _; rfl
+    | cons e es ih =>
+      intro hsub c hc
+      unfold callBasic.go
+      rw [H.arg e (hsub e (by simp)) c hc]
+      congr 1
+      funext v
+      split
+      · exact ih (fun e he => hsub e (by simp [he])) (c.withInput _) hc
+      · rfl
+  exact gen args (fun _ h => h) c hc
+
+theorem callBasic_erase (H : HypE ev fn args x) :
+    callBasic ev fn args (erase x) = callBasic ev fn args x := by
+  unfold callBasic
+  simp only [erase_withVariable, erase_withDefinition, erase_withInput', erase_input, erase_getVariable,
+    erase_getDefinition, applyArg_erase H _ rfl, foldArgs_erase H, go_erase H (x.withInput x.input) rfl,
+    applyArg_erase H _ (withVariable_defs _ _ _)]
+  split
+  all_goals first
+    | rfl
+    | skip
+  · congr 2
+    funext v
+    cases strArg v with
+    | none => rfl
+    | some n =>
+      dsimp only
+      cases hd : x.getDefinition n with
+      | none => rfl
+      | some d => exact H.mac rfl n d hd
+  · congr 2
+    funext v
+    cases strArg v with
+    | none => cases args[1]? <;> rfl
+    | some n =>
+      cases hd : args[1]? with
+      | none => rfl
+      | some d => exact applyArg_erase_def H rfl n d (List.mem_of_getElem? hd) 2
+
+theorem mapM'_congr {α β} {f g : α → Except Abort β} (l : List α) (h : ∀ a ∈ l, f a = g a) :
+    mapM' f l = mapM' g l := by
+  induction l with
+  | nil => rfl
+  | cons a l ih =>
+    unfold mapM'
+    rw [h a (by simp), ih (fun b hb => h b (by simp [hb]))]
+
+theorem mapM'_args_erase (H : HypE ev fn args x) :
+    mapM' (fun e => ev e (erase x)) args = mapM' (fun e => ev e x) args :=
+  mapM'_congr args (fun e he => H.arg e he x rfl)
+
+theorem mapM'_drop_erase (H : HypE ev fn args x) (n : Nat) :
+    mapM' (fun e => ev e (erase x)) (args.drop n) = mapM' (fun e => ev e x) (args.drop n) :=
+  mapM'_congr _ (fun e he => H.arg e (List.mem_of_mem_drop he) x rfl)
+
+theorem foldGo_erase (H : HypE ev fn args x) (f : Expr) (hf : f ∈ args) (l : List JV) (cur : Option JV) (idx : Nat) :
+    callList.foldGo ev (erase x) f cur idx l = callList.foldGo ev x f cur idx l := by
+  induction l generalizing cur idx with
+  | nil => rfl
+  | cons v vs ih =>
+    unfold callList.foldGo
+    dsimp only
+    rw [erase_withInput', H.arg f hf _ (withInput_defs _ _)]
+    congr 1
+    funext next
+    exact ih _ _
+
+macro "erase_simp" H:ident : tactic => `(tactic|
+  simp only [erase_withVariable, erase_withDefinition, erase_withInput', erase_input, erase_getVariable,
+    erase_getDefinition, applyArg_erase $H _ rfl, foldArgs_erase $H,
+    applyArg_erase $H _ (withVariable_defs _ _ _), applyArg_erase $H _ (withInput_defs _ _),
+    mapM'_args_erase $H, mapM'_drop_erase $H])
+
+theorem callList_erase (H : HypE ev fn args x) :
+    callList ev fn args (erase x) = callList ev fn args x := by
+  unfold callList
+  erase_simp H
+  split
+  all_goals first
+    | rfl
+    | skip
+  congr 2
+  funext v
+  cases v with
+  | none => rfl
+  | some j =>
+    cases j <;> first
+      | rfl
+      | (dsimp only
+         congr 1
+         funext init
+         cases hf : (if args.length > 2 then args[2]? else args[1]?) with
+         | none => rfl
+         | some f =>
+           have hmem : f ∈ args := by
+             split at hf <;> exact List.mem_of_getElem? hf
+           exact foldGo_erase H f hmem _ _ _)
+
+theorem callObject_erase (H : HypE ev fn args x) :
+    callObject ev fn args (erase x) = callObject ev fn args x := by
+  unfold callObject
+  erase_simp H
+
+theorem callNumber_erase (H : HypE ev fn args x) :
+    callNumber ev fn args (erase x) = callNumber ev fn args x := by
+  unfold callNumber
+  erase_simp H
+
+theorem callString_erase (orc : Oracles) (H : HypE ev fn args x) :
+    callString ev orc fn args (erase x) = callString ev orc fn args x := by
+  unfold callString
+  erase_simp H
+  split
+  all_goals first
+    | rfl
+    | exact absurd rfl H.parsed
+
+theorem callNas_erase (orc : Oracles) (H : HypE ev fn args x) :
+    callNas ev orc fn args (erase x) = callNas ev orc fn args x := by
+  unfold callNas
+  erase_simp H
+
+theorem callFn_erase (orc : Oracles) (H : HypE ev fn args x) :
+    callFn ev orc fn args (erase x) = callFn ev orc fn args x := by
+  unfold callFn
+  rw [callBasic_erase H, callList_erase H, callObject_erase H, callNumber_erase H, callString_erase orc H,
+    callNas_erase orc H]
+
+theorem ictx_get_erase (k : ICtxKind) (hk : ICtxKind.positional k = false) (x : Ctx) :
+    (erase x).ictx.bind k.get = x.ictx.bind k.get := by
+  cases hx : x.ictx with
+  | none => simp [erase, hx]
+  | some ic =>
+    cases k <;> first
+      | (exact absurd hk (by decide))
+      | simp [erase, hx, eraseI, eraseLoc, ICtxKind.get]
+
+theorem lookup_mem {α} (l : List (Str × α)) (k : Str) (v : α) (h : Ctx.lookup l k = some v) :
+    ∃ k', (k', v) ∈ l := by
+  induction l with
+  | nil => cases h
+  | cons p l ih =>
+    obtain ⟨k', v'⟩ := p
+    unfold Ctx.lookup at h
+    split at h
+    · cases h; exact ⟨k', by simp⟩
+    · obtain ⟨k'', hk⟩ := ih h
+      exact ⟨k'', by simp [hk]⟩
+
+theorem DefsNoPos.lookup {defs : List (Str × Expr)} (h : DefsNoPos defs) {n : Str} {d : Expr}
+    (hd : Ctx.lookup defs n = some d) : NoPos d = true := by
+  obtain ⟨k, hk⟩ := lookup_mem defs n d hd
+  exact h _ hk
+
+/-- **eval_erase.**  A `NoPos` expression evaluates to the same result (value, nothing, or abort) whatever the
+line/column of the row, provided the macros in scope are `NoPos` too — at every fuel, for every oracle. -/
+theorem eval_erase (orc : Oracles) (fuel : Nat) (e : Expr) (x : Ctx) (he : NoPos e = true)
+    (hd : DefsNoPos x.defs) : eval orc fuel e (erase x) = eval orc fuel e x := by
+  induction fuel generalizing e x with
+  | zero => rfl
+  | succ fuel ih =>
+    cases e with
+    | extract p s => rfl
+    | const v => rfl
+    | var n => rfl
+    | selected n => rfl
+    | ictx k =>
+      have hk : ICtxKind.positional k = false := by simpa [NoPos] using he
+      simp only [eval, ictx_get_erase k hk x]
+    | «macro» n =>
+      simp only [eval, erase_getDefinition]
+      cases hg : x.getDefinition n with
+      | none => rfl
+      | some d => exact ih d x (hd.lookup hg) hd
+    | call fn args =>
+      simp only [NoPos, Bool.and_eq_true, bne_iff_ne, ne_eq, noPosList_iff] at he
+      simp only [eval]
+      apply callFn_erase
+      refine ⟨?_, ?_, ?_, he.1⟩
+      · intro a ha c hc
+        exact ih a c (he.2 a ha) (by rw [hc]; exact hd)
+      · intro _ a ha n d hdm
+        refine ih a _ (he.2 a ha) ?_
+        intro p hp
+        rcases List.mem_cons.mp hp with rfl | hp
+        · exact he.2 d hdm
+        · exact hd p hp
+      · intro _ n d hg
+        exact ih d x (hd.lookup hg) hd
+
+/-- a `NoPos` expression is position independent, for every oracle -/
+theorem posIndep_of_noPos (orc : Oracles) (e : Expr) (h : NoPos e = true) : PosIndep (evalT orc) e := by
+  intro x hx
+  simp only [evalT, eval_erase orc evalFuel e x h hx]
+
+/-- the decidable check on a chain: every stage expression and every `--set @name=…` macro is `NoPos` -/
+def chainNoPos : List StageCfg → Bool
+  | [] => true
+  | c :: cs =>
+    NoPosList (stageExprs c) &&
+    (match c with
+      | .preset _ defs => NoPosList (defs.map (·.2))
+      | _ => true) && chainNoPos cs
+
+/-- a chain that passes the check reads no line or column -/
+theorem chainPosIndep_of_noPos (orc : Oracles) (cfgs : List StageCfg) (h : chainNoPos cfgs = true) :
+    ChainPosIndep (evalT orc) cfgs := by
+  induction cfgs with
+  | nil =>
+    constructor
+    · intro c hc; cases hc
+    · intro _ _ hc; cases hc
+  | cons c cs ih =>
+    simp only [chainNoPos, Bool.and_eq_true] at h
+    obtain ⟨⟨h1, h2⟩, h3⟩ := h
+    obtain ⟨i1, i2⟩ := ih h3
+    constructor
+    · intro c' hc' e he
+      rcases List.mem_cons.mp hc' with rfl | hc'
+      · exact posIndep_of_noPos orc e ((noPosList_iff _).mp h1 e he)
+      · exact i1 c' hc' e he
+    · intro vars defs hc'
+      rcases List.mem_cons.mp hc' with rfl | hc'
+      · intro p hp
+        exact (noPosList_iff _).mp h2 p.2 (List.mem_map.mpr ⟨p, hp, rfl⟩)
+      · exact i2 vars defs hc'
+
+/-- a position-reading expression is not position independent: `&start-line` distinguishes two rows that
+differ in line only -/
+example (orc : Oracles) : ¬ PosIndep (evalT orc) (.ictx .startLine) := by
+  intro h
+  have := h { ictx := some { startLoc := { line := 7 }, endLoc := {}, fileIndex := 0, index := 0 } } defsNoPos_nil
+  simp [evalT, evalFuel, eval, erase, eraseI, eraseLoc, ICtxKind.get] at this
+
+/-- non-vacuity: `exampleCfg` (`-f .b -s .a -o .a --skip 1 -t 2`) passes the check -/
+theorem examplePipeline_posIndep (orc : Oracles) : ChainPosIndep (evalT orc) examplePipeline.cfgs :=
+  chainPosIndep_of_noPos orc _ rfl
+
+/-- … so under `ignore` it prints the same bytes for noisy inputs and for their clean twins -/
+example (orc : Oracles) (specs : List StreamSpec) (hok : ∀ s ∈ specs, s.OK) :
+    (run orc exampleCfg (specs.map StreamSpec.source) {} {}).stdout
+      = (run orc exampleCfg (specs.map (fun s => s.strip.source)) {} {}).stdout :=
+  (noise_ignore_same_output orc exampleCfg specs {} {} examplePipeline hok rfl (build_example orc)
+    (examplePipeline_noAbort orc) (examplePipeline_posIndep orc) ⟨rfl, rfl⟩ (fun h => h)).2.2.1
+
+/-- a chain with function calls, a macro and the non-positional input-context readers passes the check:
+`-f (>= (size .) &index)` after `--set @m=(concat &file-name "x")`, selecting `@m` -/
+example : chainNoPos
+    [.preset [] [("m".toList, .call "concat" [.ictx .fileName, .const (.str "x".toList)])],
+     .filter (.call ">=" [.call "size" [.extract 0 []], .ictx .index]),
+     .select "m".toList (.macro "m".toList)] = true := by rfl
+
+/-- … while one that reads the start line, directly or through `parse_selection`, does not -/
+example : chainNoPos [.filter (.call "=" [.ictx .startLine, .const (.num (.pos 1))])] = false := by rfl
+example : chainNoPos [.select "s".toList (.call "parse_selection" [.const (.str "&start-line".toList)])] = false := by
+  rfl
+
+/-- non-vacuity of `eval_erase`: its hypotheses hold for `(size .)` on any row without macros -/
+example (orc : Oracles) (x : Ctx) (hx : x.defs = []) :
+    eval orc evalFuel (.call "size" [.extract 0 []]) (erase x) = eval orc evalFuel (.call "size" [.extract 0 []]) x :=
+  eval_erase orc _ _ x rfl (by rw [hx]; exact defsNoPos_nil)
+
+/-! ### a statement that is false as first asked
+
+"`(errsOf … noisy …).length` = number of garbage bytes" does not hold for every chain: `errsOf` lists the errors
+the RUN meets, and the run stops reading when the chain answers `Break`.  With `--take 1` on `1 x 2\n` the
+limiter answers `Break` on the value `1`; the garbage byte `x` is never read and nothing is reported.
+`noisy_errsOf` is the true statement (`≤` always, `=` when the chain does not answer `Break`); `noisy_errors`
+counts the errors in the input itself (`perrsOf`). -/
+example :
+    errsOf (fun _ _ => none) {} [.limit 0 (some 1)] 8 (Reader.ofBytes [49, 32, 120, 32, 50, 10] none) 0 0
+      [.limit 0 0] = [] ∧
+    (perrsOf 8 (Reader.ofBytes [49, 32, 120, 32, 50, 10] none)).length = 1 := ⟨by rfl, by rfl⟩
+
+end Jawk.Noise
+
+/- axiom audit (all ⊆ {propext, Classical.choice, Quot.sound}):
+#print axioms Jawk.Noise.garbage_run
+#print axioms Jawk.Noise.garbage_run_ctxsOf
+#print axioms Jawk.Noise.ctxsOf_fuel
+#print axioms Jawk.Noise.noisy_rows
+#print axioms Jawk.Noise.noisy_errors
+#print axioms Jawk.Noise.noisy_errsOf
+#print axioms Jawk.Noise.noise_transparent
+#print axioms Jawk.Noise.noise_default_same_output
+#print axioms Jawk.Noise.readLoop_panic
+#print axioms Jawk.Noise.readSources_panic
+#print axioms Jawk.Noise.run_panic_spec
+#print axioms Jawk.Noise.run_panic_noisy
+#print axioms Jawk.Noise.no_errors_no_reports
+#print axioms Jawk.Noise.clean_no_reports
+#print axioms Jawk.Noise.specRows_congr_input
+#print axioms Jawk.Noise.noise_ignore_same_output
+#print axioms Jawk.Noise.noise_stderr_same_output
+#print axioms Jawk.Noise.noise_stdout_same_rows
+#print axioms Jawk.Noise.errsOfSources_stream
+#print axioms Jawk.Noise.eval_erase
+#print axioms Jawk.Noise.chainPosIndep_of_noPos
+-/
